@@ -1,10 +1,11 @@
 """C01 - surface connectivity answers agree with the face list (structural clauses)."""
 from __future__ import annotations
-import ast, itertools
-from .. import au, sym, order
+import ast
+from .. import au, sym
 from ..core import AnalysisError
 from ..rules.lazy import LazyClass
 from ..rules import common
+from ..rules import ha_sx as sx, ha_q as q, ha_rules as hr
 
 SURF = "mesh.datatypes.surface"
 LIN = "mesh.datatypes.linear"
@@ -22,12 +23,15 @@ RULES = {
               "paths on which the field is built (guard, direct assignment or a callee that ensures it), from the state left by __init__",
     "C01-L3": "every lazy cache field is assigned in the __init__ chain (otherwise its own `is None` guard raises AttributeError)",
     "C01-L4": "`clear` resets every cache field that has a writer; any other reset method resets whole groups",
+    "C01-L6": "every builder of a rotationally sorted table that a cold path can call sorts it like the other builders of that table do",
+    "C01-L7": "clear() restores every attribute that __init__ sets and a query modifies",
     "C01-T1": "readers of the half-edge record use the slot whose provenance in the writer matches their role",
     "C01-O1": "is_edge_on_border == edge exists and (direct_face(u,v) is None or direct_face(v,u) is None)",
     "C01-P1": "interior/boundary lists are an if/else partition on one predicate; both endpoints of a border edge are marked",
     "C01-P2": "the 1-skeleton adjacency is filled symmetrically",
     "C01-K1": "a dictionary written under keyify(...) keys is only read under keyify(...) keys",
-    "C01-W1": "the counter-clockwise walk is the inverse of the clockwise walk and steps the sort index with the opposite sign",
+    "C01-W1": "each rotation walk steps to a corner of the same vertex (opposite(previous(c)) or next(opposite(c)), read through the slot roles of the "
+              "half-edge record), the two walks turn in opposite directions, step the rank with opposite signs and start from the same corner",
     "C01-L5": "the cold path of a lazily cached accessor (`if self.f is None:`) only builds the cache; it never answers by itself "
               "(an answer computed differently when the cache is cold makes the result depend on the order of the queries)",
     "C01-D1": "opposite_face(u, v, F, return_inds=True) returns (face, local index of u, local index of v): the names unpacked from "
@@ -36,24 +40,47 @@ RULES = {
               "sort index built by the walks; a neighbour v is keyed by the corner of the half edge (A, v) leaving the vertex",
     "C01-D3": "definitional accessors (other_edge_end, in_face_index, direct_face, common_edge) return what their definition says under "
               "every ordering / truth assignment of their operands",
+    "C01-S1": "the border classification of vertices / edges never reads a fixed position of a ring around a vertex (the order of a ring depends "
+              "on config.sort_neighborhoods and on the queries issued before; the classification must not)",
+    "C01-G1": "face corners are generated for every vertex of every face, in face order, into a container emptied beforehand (never for a "
+              "sub-range of the faces on top of existing corners)",
     "C01-D2": "derived accessors are element-wise maps of the rotationally sorted primary tables (same order, same length)",
 }
+
+
+def _guard(ctx, pid, rule_fn, *args, **kw):
+    """one rule that cannot read the code must not take the whole check down: its obligations are reported undecided"""
+    try:
+        return rule_fn(ctx, *args, **kw)
+    except _Missing:
+        return None
+    except AnalysisError:
+        raise
+    except Exception as ex:  # noqa
+        name = getattr(rule_fn, "__name__", "rule")
+        import re
+        tag = name.split("_")[0].upper() if re.match(r"^[a-z]\d_", name) else {"keyify_agreement": "K1", "check_module": "R1"}.get(name, "X0")
+        ctx.undecided(f"{pid}-{tag}", ctx.site("mesh.mesh_data", "RawMeshData"),
+                      f"the rule `{name}` could not analyse the current source ({type(ex).__name__})", str(ex)[:200])
+        return None
 
 
 def run(ctx):
     repo = ctx.repo
     lazy_rules(ctx, [(LIN, "PolyLine._Connectivity"), (SURF, CONN), (SURF, "SurfaceMesh")],
-               "C01", min_entries=40, min_guards=18)
-    t1_record_layout(ctx)
-    o1_edge_on_border(ctx)
-    p1_partitions(ctx)
-    p2_symmetric_adjacency(ctx)
-    common.keyify_agreement(ctx, "C01-K1", [(LIN, "PolyLine._Connectivity"), (SURF, CONN)], min_dicts=2)
-    w1_rotational_sort(ctx)
-    d1_opposite_face(ctx)
-    d2_derived_accessors(ctx)
-    w2_sorted_tables(ctx)
-    d3_definitional_accessors(ctx)
+               "C01", min_entries=15, min_guards=3)
+    slot = _guard(ctx, "C01", t1_record_layout)
+    _guard(ctx, "C01", o1_edge_on_border)
+    _guard(ctx, "C01", p1_partitions)
+    _guard(ctx, "C01", p2_symmetric_adjacency)
+    _guard(ctx, "C01", s1_order_independent_classification)
+    _guard(ctx, "C01", g1_corner_generation)
+    _guard(ctx, "C01", hr.keyify_agreement, "C01-K1", [(LIN, "PolyLine._Connectivity"), (SURF, CONN)], never={SORTER})
+    _guard(ctx, "C01", w1_rotational_sort, slot)
+    _guard(ctx, "C01", d1_opposite_face, slot)
+    _guard(ctx, "C01", d2_derived_accessors)
+    _guard(ctx, "C01", w2_sorted_tables, slot)
+    _guard(ctx, "C01", d3_definitional_accessors)
 
 
 # ----------------------------------------------------------------------- R-LAZY
@@ -86,6 +113,12 @@ def lazy_rules(ctx, classes, pid, min_entries, min_guards):
                                                       f"{len(lc.lazy)} lazy fields")
         # L3
         ia = lc.init_assigned()
+        class_level = set()
+        for m, c in lc.mro:
+            for st in c.body:
+                if isinstance(st, (ast.Assign, ast.AnnAssign)):
+                    for t in au.assign_targets(st):
+                        class_level.update(au.assigned_names(t))
         for f in sorted(lc.guard_fields):
             owner = None
             for m, fn, c in lc.all_defs:
@@ -93,7 +126,7 @@ def lazy_rules(ctx, classes, pid, min_entries, min_guards):
                     owner = (m, c)
                     break
             site = ctx.site(owner[0].name, owner[1]._qualname + ".__init__")
-            ctx.check(f in ia, f"{pid}-L3", site, f"self.{f} never assigned in the __init__ chain of {qual}",
+            ctx.check(f in ia or f in class_level, f"{pid}-L3", site, f"self.{f} never assigned in the __init__ chain of {qual}",
                       f"`if self.{f} is None` raises AttributeError on a fresh {qual}: the field is only assigned by "
                       f"{', '.join(sorted(n for n, s in lc.writers().items() if f in s)) or 'clear()'}",
                       note=f"{qual}.{f} initialised")
@@ -106,24 +139,37 @@ def lazy_rules(ctx, classes, pid, min_entries, min_guards):
                         and isinstance(st.test.ops[0], ast.Is) and au.is_self_attr(st.test.left) \
                         and st.test.left.attr in lc.lazy and isinstance(st.test.comparators[0], ast.Constant) \
                         and st.test.comparators[0].value is None:
+                    f = st.test.left.attr
                     rets = [r for r in au.stmts(st.body) if isinstance(r, ast.Return)]
                     site = ctx.site(m.name, fn, st)
-                    key = (m.name, getattr(fn, "_qualname", fn.name), st.test.left.attr)
+                    key = (m.name, getattr(fn, "_qualname", fn.name), f)
                     if key in seen_l5:
                         continue
                     seen_l5.add(key)
-                    ctx.check(not rets, f"{pid}-L5", site,
-                              f"{fn.name}: the cold path (`self.{st.test.left.attr} is None`) returns an answer of its own instead of building the cache",
-                              "the same query is answered by two different computations depending on whether another query already "
-                              "built the cache: answers are not independent of the order in which queries are issued",
-                              note=f"{fn.name}: cold path only builds")
-        # L4
+                    if not rets:
+                        ctx.ok(f"{pid}-L5", site, f"{fn.name}: cold path only builds")
+                        continue
+                    if not _builds(lc, (m, fn, c), st.body, f):
+                        ctx.fail(f"{pid}-L5", site,
+                                 f"{fn.name}: the cold path (`self.{f} is None`) returns an answer of its own instead of building the cache",
+                                 "the same query is answered by two different computations depending on whether another query already "
+                                 "built the cache: answers are not independent of the order in which queries are issued")
+                        continue
+                    blk, _ = au.enclosing_block(st)
+                    after = blk[[id(z) for z in blk].index(id(st)) + 1:] if blk else []
+                    warm = next((z for z in after if isinstance(z, ast.Return)), None)
+                    if warm is not None and all(au.same(r.value, warm.value) for r in rets):
+                        ctx.ok(f"{pid}-L5", site, f"{fn.name}: cold path builds, then answers like the warm path")
+                    else:
+                        ctx.undecided(f"{pid}-L5", site, f"{fn.name}: the cold path (`self.{f} is None`) builds the cache and returns a value that is not "
+                                      f"syntactically the answer of the warm path", "")
+        # L4: judged on the methods a user can call (private helpers are covered through their public callers)
         written = set().union(*lc.writers().values()) if lc.writers() else set()
         written &= lc.guard_fields
         for name, (m, fn, o) in sorted(lc.methods.items()):
-            if name == "__init__":
+            if name.startswith("_"):
                 continue
-            resets = lc.reset_closure(name) if name == "clear" else lc.direct_resets(fn)
+            resets = lc.reset_closure(name)
             if not resets:
                 continue
             site = ctx.site(m.name, fn)
@@ -143,686 +189,1224 @@ def lazy_rules(ctx, classes, pid, min_entries, min_guards):
                           f"{name}() resets part of a cache group, leaving {', '.join('self.' + x for x in missing)} built",
                           "resetting one member of a group of caches that are built together leaves the others stale",
                           note=f"{qual}.{name} resets whole groups")
+        # L6: two builders of one rotationally sorted table must agree on sorting it (vertex rings are only sorted for surface meshes)
+        if pid == "C01":
+            _l6_sorted_builders(ctx, pid, lc, qual)
+        # L7: clear() restores every piece of state that __init__ establishes and the queries modify
+        _l7_state_reset(ctx, pid, lc, qual)
     ctx.require_count(f"{pid}-L1 entry points", n_entries, min_entries)
     ctx.require_count(f"{pid}-L1 guards", n_guards, min_guards)
 
 
+class _Missing(Exception):
+    pass
+
+
+def _priv(ctx, rule, modname, cls, name, field=None, pred=None):
+    """private anchor by name, else by role (the builder called by the guards of `field`, or the unique method satisfying pred)"""
+    finder = None
+    if field is not None:
+        finder = lambda: hr.guard_callee(ctx.repo, modname, cls, field)
+    elif pred is not None:
+        finder = lambda: hr.method_with(ctx.repo, modname, cls, pred)
+    r = hr.private_anchor(ctx, rule, modname, cls, name, finder)
+    if r is None:
+        raise _Missing()
+    return r[1]
+
+
+def _pub(ctx, modname, cls, name):
+    r = hr.method_of(ctx.repo, modname, cls, name)
+    if r is None:
+        raise AnalysisError(f"anchor function {modname}::{cls}.{name} not found")
+    return r[1]
+
+
+def _callees(lc, entry, body):
+    out = []
+    for st in body:
+        for c in au.calls(st):
+            t = lc.resolve_call(c, entry)
+            if t is not None:
+                out.append(t)
+    return out
+
+
+def _closure(lc, entry, body=None, depth=6):
+    """methods (entries) transitively called through self / super calls from `body` (default: the body of entry)"""
+    seen, out = set(), []
+    todo = [(t, 0) for t in _callees(lc, entry, body if body is not None else entry[1].body)]
+    while todo:
+        t, d = todo.pop()
+        if id(t[1]) in seen or d > depth:
+            continue
+        seen.add(id(t[1]))
+        out.append(t)
+        todo += [(u, d + 1) for u in _callees(lc, t, t[1].body)]
+    return out
+
+
+def _builds(lc, entry, body, f):
+    """does `body` (statements of method `entry`) assign self.f a value, directly or through the methods it calls?"""
+    from ..rules.lazy import _field_assignments
+    for st in au.stmts(body):
+        for tgt, val in _field_assignments(st):
+            if tgt == f and not (isinstance(val, ast.Constant) and val.value is None):
+                return True
+    return any(f in lc.direct_writes(t[1]) for t in _closure(lc, entry, body))
+
+
+def _mutated_fields(fn):
+    """attributes of self that a method rebinds or updates in place"""
+    out = set()
+    for st in au.stmts(fn.body):
+        for t in au.assign_targets(st):
+            for n in ast.walk(t):
+                if au.is_self_attr(n) and isinstance(n.ctx, ast.Store):
+                    out.add(n.attr)
+                if isinstance(n, ast.Subscript) and isinstance(n.ctx, ast.Store) and au.is_self_attr(n.value):
+                    out.add(n.value.attr)
+            if isinstance(st, ast.AugAssign) and au.is_self_attr(st.target):
+                out.add(st.target.attr)
+    for c in au.calls(fn):
+        if isinstance(c.func, ast.Attribute) and au.is_self_attr(c.func.value) and c.func.attr in sx.Sx.MUTATORS:
+            out.add(c.func.value.attr)
+    return out
+
+
+def _l7_state_reset(ctx, pid, lc, qual):
+    if "clear" not in lc.methods or "__init__" not in lc.methods:
+        return
+    init = lc.methods["__init__"]
+    clear = lc.methods["clear"]
+    in_init = {id(init[1])} | {id(t[1]) for t in _closure(lc, init)}
+    in_clear = {id(clear[1])} | {id(t[1]) for t in _closure(lc, clear)}
+    established = lc.init_assigned()
+    restored = set()
+    for t in [clear] + _closure(lc, clear):
+        restored |= _mutated_fields(t[1])
+    # a builder of a lazy table re-establishes what it assigns each time the table is rebuilt after a reset
+    from ..rules.lazy import _field_assignments
+    for m, fn, o in lc.all_defs:
+        if lc.direct_writes(fn) & lc.guard_fields:
+            for st in au.stmts(fn.body):
+                for tgt, val in _field_assignments(st):
+                    if not isinstance(st, ast.AugAssign):
+                        restored.add(tgt)
+    site = ctx.site(clear[0].name, clear[1])
+    stale = {}
+    for name, (m, fn, o) in lc.methods.items():
+        if id(fn) in in_init or id(fn) in in_clear:
+            continue
+        for f in _mutated_fields(fn):
+            if f in established and f not in restored and f not in lc.lazy:
+                stale.setdefault(f, name)
+    for f, name in sorted(stale.items()):
+        ctx.fail(f"{pid}-L7", site, f"clear() of {qual} does not restore self.{f}, which __init__ sets and {name}() modifies",
+                 "a cleared object must behave like a fresh one: state recorded for the previous tables survives the reset and is trusted for the rebuilt ones")
+    if not stale:
+        ctx.ok(f"{pid}-L7", site, f"{qual}.clear restores the state established by __init__")
+
+
+SORTER = "_sort_vertex_neighborhoods"
+
+
+def _l6_sorted_builders(ctx, pid, lc, qual):
+    cand = [SORTER] if SORTER in lc.methods else [n for n, (m_, f_, o_) in lc.methods.items() if n.startswith("_")
+                                                  and any(au.call_tail(c) in ("sort", "sorted") for c in au.calls(f_))
+                                                  and any(au.is_self_attr(n_, "_adjV2Cn") for n_ in au.walk(f_))]
+    if len(cand) != 1:
+        return
+    sm, sfn, so = lc.methods[cand[0]]
+    sxm = q.summarise(ctx.repo, lc.mod.name, lc.qual, sfn)
+    sorted_fields = {q.field(b.value) for e, b in q.method_calls(sxm, ("sort",)) if isinstance(b, ast.Subscript) and q.field(b.value)}
+    # builders called straight from a cold path `if self.<lazy field> is None: self.B()`
+    direct = {}
+    for m, fn, c in lc.all_defs:
+        for st in au.stmts(fn.body):
+            if isinstance(st, ast.If) and isinstance(st.test, ast.Compare) and len(st.test.ops) == 1 and isinstance(st.test.ops[0], ast.Is) \
+                    and au.is_self_attr(st.test.left) and st.test.left.attr in lc.lazy:
+                for t in _callees(lc, (m, fn, c), st.body):
+                    direct[id(t[1])] = t
+    info = []
+    for t in direct.values():
+        reach = [t] + _closure(lc, t)
+        writes = set()
+        for r in reach:
+            writes |= lc.direct_writes(r[1])
+        info.append((t, writes & sorted_fields, any(r[1] is sfn for r in reach)))
+    for f in sorted(sorted_fields):
+        sorting = [t for t, w, s_ in info if f in w and s_]
+        for t, w, s_ in info:
+            if f in w:
+                site = ctx.site(t[0].name, t[1])
+                ctx.check(s_ or not sorting, f"{pid}-L6", site,
+                          f"{t[1].name}() builds self.{f} without the rotational sort that {sorting[0][1].name if sorting else ''}() applies to it",
+                          f"both are called from `is None` guards: whichever query comes first decides whether self.{f} is in rotational order - "
+                          "the answers depend on the order of the queries", note=f"{qual}: {t[1].name} builds self.{f} sorted like the other builders")
+
+
 # ----------------------------------------------------------------------- C01-T1
-ROLE_SLOT = {  # reader method -> role of the slot it must read
+ROLE_SLOT = {  # public accessor -> role of the slot of the half-edge record it must read
     "previous_corner": "corner-1", "next_corner": "corner+1", "opposite_corner": "opposite",
     "half_edge_to_corner": "corner0",
 }
+HE = "_half_edges"
+NEED = ["corner0", "corner-1", "corner+1", "opposite", "face", "local0", "local+1"]
+
+
+def _builder(ctx):
+    """summary of SurfaceMesh._Connectivity._compute_connectivity with its private helpers followed (the rotational sort excluded)"""
+    fn = _priv(ctx, "C01-T1", SURF, CONN, "_compute_connectivity", field="_half_edges")
+    sorter = _find_sorter(ctx)
+    x = q.summarise(ctx.repo, SURF, CONN, fn, policy=sx.Policy(never={sorter.name} if sorter is not None else set()))
+    return fn, x
+
+
+def record_layout(ctx, x):
+    """(slot roles {role: [slot..]}, writer effect, face frame, in-face frame, key) from the stores into self._half_edges, or a string
+    saying what could not be read."""
+    ws = []
+    for e in q.setitems(x, HE):
+        v = x.expand(e.value)
+        if isinstance(v, (ast.List, ast.Tuple)):
+            ws.append((e, v))
+    if len(ws) != 1:
+        return f"{len(ws)} stores of a literal record into self.{HE}"
+    w, rec = ws[0]
+    faces = None
+    for fr in w.frames:
+        if fr.kind == "seq" and isinstance(fr.dom, ast.Attribute) and fr.dom.attr == "faces":
+            faces = fr
+    if faces is None:
+        return "the record store is not inside a loop over the faces"
+    row = ast.Subscript(value=faces.dom, slice=sx.N(faces.var), ctx=ast.Load())
+    inner = None
+    for fr in w.frames:
+        if fr.kind == "seq" and q.same(fr.dom, row):
+            inner = fr
+    if inner is None:
+        return "the record store is not inside a loop over the vertices of the face"
+    extra = [fr for fr in w.frames if fr is not faces and fr is not inner]
+    if extra or w.conds:
+        return "the record store is nested in further loops / conditions"
+    kf, kv = faces.var, inner.var
+
+    def vertex_offset(t):
+        return q.row_offset(t, kv, row)
+
+    def corner_offset(t):
+        k = q.lookup_key(t, "_adjVF2Cn")
+        if k is None and isinstance(t, ast.Call) and q.field(t.func) == "vertex_to_corner_in_face" and len(t.args) == 2:
+            k = ast.Tuple(elts=list(t.args), ctx=ast.Load())
+        if isinstance(k, ast.Tuple) and len(k.elts) == 2 and isinstance(k.elts[1], ast.Name) and k.elts[1].id == kf:
+            return vertex_offset(k.elts[0])
+        return None
+    roles = {}
+    for i, t in enumerate(rec.elts):
+        co = corner_offset(t)
+        if co is not None:
+            roles.setdefault({0: "corner0", -1: "corner-1", 1: "corner+1"}.get(co, f"corner{co:+d}"), []).append(i)
+        elif isinstance(t, ast.Constant) and t.value is None:
+            roles.setdefault("opposite", []).append(i)
+        elif isinstance(t, ast.Name) and t.id == kf:
+            roles.setdefault("face", []).append(i)
+        else:
+            mo = q.mod_offset(t, kv, row)
+            if mo is not None:
+                roles.setdefault({0: "local0", 1: "local+1"}.get(mo, f"local{mo:+d}"), []).append(i)
+            else:
+                roles.setdefault("unknown", []).append(i)
+    return roles, w, rec, (kf, kv, row), vertex_offset, corner_offset
 
 
 def t1_record_layout(ctx):
     repo = ctx.repo
-    fn = repo.func(SURF, CONN + "._compute_connectivity")
+    fn, x = _builder(ctx)
     site = ctx.site(SURF, fn)
-    b = sym.Bindings(fn)
-    # writer: self._half_edges[KEY] = [s0..s6]
-    writers = [st for st in au.stmts(fn.body) if isinstance(st, ast.Assign) and len(st.targets) == 1
-               and isinstance(st.targets[0], ast.Subscript) and au.is_self_attr(st.targets[0].value, "_half_edges")
-               and isinstance(st.value, (ast.List, ast.Tuple))]
-    if len(writers) != 1:
-        ctx.fail("C01-T1", site, "half-edge record writer not found (self._half_edges[key] = [..])",
-                 f"{len(writers)} literal record stores into self._half_edges; the record layout cannot be established")
-        return
-    w = writers[0]
-    # enclosing loops: for iF,F in enumerate(faces) / for iV in range(n)
-    loops = [a for a in au.ancestors(w) if isinstance(a, ast.For)]
-    if len(loops) < 2:
-        ctx.fail("C01-T1", site, "half-edge record writer is not inside the face / in-face-index loop nest", "")
-        return
-    inner, outer = loops[0], loops[1]
-    iV = inner.target.id if isinstance(inner.target, ast.Name) else None
-    face_idx, face_row = None, None
-    if isinstance(outer.target, ast.Tuple) and len(outer.target.elts) == 2 and au.call_tail(outer.iter) == "enumerate" \
-            if isinstance(outer.iter, ast.Call) else False:
-        face_idx, face_row = outer.target.elts[0].id, outer.target.elts[1].id
-    if iV is None or face_idx is None:
-        ctx.fail("C01-T1", site, "loop nest of the half-edge writer not in the `for iF,F in enumerate(faces): for iV in range(n)` form", "")
-        return
-    nname = None
-    if isinstance(inner.iter, ast.Call) and au.call_tail(inner.iter) == "range" and len(inner.iter.args) == 1:
-        nexpr = b.resolve(inner.iter.args[0], at=inner)
-        ctx.check(au.src(nexpr) == f"len({face_row})", "C01-T1", site,
-                  f"in-face index loop runs over {au.src(nexpr)} instead of len({face_row})",
-                  "the half-edge loop must visit every vertex of the face exactly once")
-        nname = au.src(inner.iter.args[0])
-
-    def vertex_offset(e):
-        """offset k if e resolves to F[(iV+k)%n]"""
-        e = b.resolve(e, keep=(iV, face_row, face_idx, nname), at=w)
-        if isinstance(e, ast.Subscript) and isinstance(e.value, ast.Name) and e.value.id == face_row:
-            return sym.mod_offset(e.slice, iV, nname)
+    lay = record_layout(ctx, x)
+    if isinstance(lay, str):
+        ctx.undecided("C01-T1", site, "writer of the half-edge records not recognised", lay)
         return None
-
-    def corner_offset(e):
-        """offset k if e resolves to self._adjVF2Cn[(F[(iV+k)%n], iF)]"""
-        e = b.resolve(e, keep=(iV, face_row, face_idx, nname), at=w)
-        if isinstance(e, ast.Subscript) and au.is_self_attr(e.value, "_adjVF2Cn") and isinstance(e.slice, ast.Tuple) \
-                and len(e.slice.elts) == 2 and isinstance(e.slice.elts[1], ast.Name) and e.slice.elts[1].id == face_idx:
-            return vertex_offset(e.slice.elts[0])
+    roles, w, rec, (kf, kv, row), vertex_offset, corner_offset = lay
+    wsite = ctx.site(SURF, w.fn, w.node)
+    key = w.key
+    ko = (vertex_offset(key.elts[0]), vertex_offset(key.elts[1])) if isinstance(key, ast.Tuple) and len(key.elts) == 2 else None
+    if ko is None or None in ko:
+        ctx.undecided("C01-T1", wsite, "key of the half-edge record not recognised", au.src(key))
+    else:
+        ctx.check(ko == (0, 1), "C01-T1", wsite,
+                  f"half-edge record is keyed by (vertex {ko[0]:+d}, vertex {ko[1]:+d}) of the face instead of (this vertex, the next vertex)",
+                  "the half edge leaving the i-th vertex of a face must be keyed by (that vertex, the next vertex of the face)",
+                  note="key = (F[i], F[i+1])")
+    if "unknown" in roles:
+        ctx.undecided("C01-T1", wsite, "provenance of a slot of the half-edge record not recognised", f"slots {roles['unknown']} of {len(rec.elts)}")
         return None
-
-    key = w.targets[0].slice
-    key_ok = isinstance(key, ast.Tuple) and len(key.elts) == 2 and \
-        (vertex_offset(key.elts[0]), vertex_offset(key.elts[1])) == (0, 1)
-    ctx.check(key_ok, "C01-T1", site, f"half-edge key {au.src(key)} is not (F[iV], F[(iV+1)%n])",
-              "the half edge leaving the iV-th vertex of a face must be keyed by (that vertex, the next vertex of the face)")
-    roles = {}
-    for i, e in enumerate(w.value.elts):
-        co = corner_offset(e)
-        if co is not None:
-            roles.setdefault({0: "corner0", -1: "corner-1", 1: "corner+1"}.get(co, f"corner{co:+d}"), []).append(i)
-            continue
-        if isinstance(e, ast.Constant) and e.value is None:
-            roles.setdefault("opposite", []).append(i)
-            continue
-        if isinstance(e, ast.Name) and e.id == face_idx:
-            roles.setdefault("face", []).append(i)
-            continue
-        mo = sym.mod_offset(b.resolve(e, keep=(iV, nname), at=w), iV, nname)
-        if mo is not None:
-            roles.setdefault({0: "local0", 1: "local+1"}.get(mo, f"local{mo:+d}"), []).append(i)
-            continue
-        roles.setdefault("unknown", []).append(i)
-    need = ["corner0", "corner-1", "corner+1", "opposite", "face", "local0", "local+1"]
-    layout_ok = all(len(roles.get(r, [])) == 1 for r in need) and len(w.value.elts) == 7
-    ctx.check(layout_ok, "C01-T1", ctx.site(SURF, fn, w),
-              f"half-edge record {au.src(w.value)} does not hold exactly (corner, previous, next, opposite, face, i, i+1)",
-              f"slot provenance derived from the writer: {roles}", note=f"record layout {roles}")
+    layout_ok = all(len(roles.get(r, [])) == 1 for r in NEED)
     if not layout_ok:
-        return
-    slot = {r: roles[r][0] for r in need}
-    # _Cn2he[corner0] = key
-    cn = [st for st in au.stmts(fn.body) if isinstance(st, ast.Assign) and isinstance(st.targets[0], ast.Subscript)
-          and au.is_self_attr(st.targets[0].value, "_Cn2he")]
-    ok = len(cn) == 1 and corner_offset(cn[0].targets[0].slice) == 0 and au.same(b.resolve(cn[0].value, at=cn[0]), b.resolve(key, at=w)) \
-        and any(a is inner for a in au.ancestors(cn[0]))
-    ctx.check(ok, "C01-T1", site, "corner -> half-edge map is not `_Cn2he[corner of F[iV]] = (F[iV], F[iV+1])` in the same loop",
-              "corner_to_half_edge / next / previous / opposite look the record up through this map")
-    # opposite filling: he[(A,B)][s] = corner0 of he[(B,A)]
-    opp_stores = [st for st in au.stmts(fn.body) if isinstance(st, ast.Assign) and isinstance(st.targets[0], ast.Subscript)
-                  and isinstance(st.targets[0].value, ast.Subscript) and au.is_self_attr(st.targets[0].value.value, "_half_edges")]
-    good = 0
-    for st in opp_stores:
-        t = st.targets[0]
-        s_idx = au.const(t.slice)
-        k = t.value.slice
-        v = b.resolve(st.value, at=st)
-        # v must be self._half_edges.get(REV(k), [None])[corner0 slot]
-        rev_ok = False
-        if isinstance(v, ast.Subscript) and au.const(v.slice) == slot["corner0"]:
-            base = v.value
-            src_key = None
-            if isinstance(base, ast.Call) and au.call_tail(base) == "get" and au.is_self_attr(base.func.value, "_half_edges"):
-                src_key = base.args[0]
-            elif isinstance(base, ast.Subscript) and au.is_self_attr(base.value, "_half_edges"):
-                src_key = base.slice
-            if src_key is not None and isinstance(src_key, ast.Tuple) and isinstance(k, ast.Tuple) \
-                    and len(k.elts) == 2 and len(src_key.elts) == 2:
-                rev_ok = au.same(src_key.elts[0], k.elts[1]) and au.same(src_key.elts[1], k.elts[0]) \
-                    and not au.same(k.elts[0], k.elts[1])
-        ok = s_idx == slot["opposite"] and rev_ok
-        ctx.check(ok, "C01-T1", ctx.site(SURF, fn, st),
-                  f"opposite slot store `{au.src(st)}` does not write slot {slot['opposite']} of (A,B) with the corner of (B,A)",
-                  "the opposite of half edge (A,B) is the corner recorded for (B,A)")
-        good += ok
-    ctx.check(len(opp_stores) == 2, "C01-T1", site,
-              f"{len(opp_stores)} opposite-slot store(s) instead of the pair (A,B)<-(B,A), (B,A)<-(A,B)",
-              "both half edges of an interior edge must learn their opposite")
-    # readers
-    conn = repo.cls(SURF, CONN)
-    n_readers = 0
-    for st in conn.body:
-        if not isinstance(st, ast.FunctionDef) or st.name.startswith("_"):
+        ctx.undecided("C01-T1", wsite, "the half-edge record does not hold each of (corner, previous, next, opposite, face, i, i+1) exactly once",
+                      f"slot provenance derived from the writer: {roles}")
+        return None
+    ctx.ok("C01-T1", wsite, f"record layout {roles}")
+    slot = {r: roles[r][0] for r in NEED}
+    # ---- corner -> half edge
+    cn = q.setitems(x, "_Cn2he")
+    good = [e for e in cn if q.frame_doms(e.frames) == q.frame_doms(w.frames) and not e.conds]
+    if len(cn) != 1 or not good:
+        ctx.undecided("C01-T1", site, "corner -> half-edge store not recognised", f"{len(cn)} store(s) into self._Cn2he")
+    else:
+        e = good[0]
+        m = {fr.var: sx.N(wf.var) for fr, wf in zip(e.frames, w.frames)}
+        k2, v2 = sx.substitute(e.key, m), sx.substitute(x.expand(e.value), m)
+        ctx.check(corner_offset(k2) == 0 and q.same(v2, key), "C01-T1", ctx.site(SURF, e.fn, e.node),
+                  "corner -> half-edge map does not send the corner of the i-th vertex of a face to the half edge leaving that vertex",
+                  "next / previous / opposite corner look the record up through this map", note="_Cn2he[corner of F[i]] = key of its record")
+    # ---- opposite slot
+    opp = []
+    for e in x.effects:
+        if e.kind == "setitem":
+            k = q.lookup_key(x.canon(e.base), HE)
+            if k is not None:
+                opp.append((e, k))
+    if not opp:
+        ctx.undecided("C01-T1", site, "no store into a slot of an existing half-edge record (filling of the opposite slot not found)", "")
+    n_ok = 0
+    for e, k in opp:
+        esite = ctx.site(SURF, e.fn, e.node)
+        s_idx = au.const(e.key)
+        val = sx.assume_not_none(x.expand(e.value))
+        reads = q.record_reads(val, HE)
+        if not isinstance(s_idx, int) or len(reads) != 1 or reads[0][0] is not val:
+            ctx.undecided("C01-T1", esite, "store into a half-edge record not recognised", "")
             continue
-        for n in au.walk(st):
-            if isinstance(n, ast.Subscript) and isinstance(n.ctx, ast.Load):
-                base = n.value
-                is_rec = (isinstance(base, ast.Subscript) and au.is_self_attr(base.value, "_half_edges")) or \
-                         (isinstance(base, ast.Call) and au.call_tail(base) == "get" and
-                          isinstance(base.func, ast.Attribute) and au.is_self_attr(base.func.value, "_half_edges"))
-                if not is_rec:
-                    continue
-                n_readers += 1
-                rsite = ctx.site(SURF, st, n)
-                if st.name in ROLE_SLOT:
-                    want = slot[ROLE_SLOT[st.name]]
-                    ctx.check(au.const(n.slice) == want, "C01-T1", rsite,
-                              f"{st.name} reads slot {au.src(n.slice)} of the half-edge record, the {ROLE_SLOT[st.name]} slot is {want}",
-                              f"writer layout: {roles}", note=f"{st.name} reads slot {want}")
-                elif st.name == "direct_face":
-                    if isinstance(n.slice, ast.Slice):
-                        lo = au.const(n.slice.lower)
-                        okk = lo == slot["face"] and n.slice.upper is None and n.slice.step is None \
-                            and (slot["face"], slot["local0"], slot["local+1"]) == (lo, lo + 1, lo + 2) \
-                            and len(w.value.elts) == lo + 3
-                        ctx.check(okk, "C01-T1", rsite,
-                                  f"direct_face(return_inds) slices {au.src(n.slice)}; (face, i, i+1) are slots "
-                                  f"{slot['face']},{slot['local0']},{slot['local+1']}", f"writer layout: {roles}")
-                    else:
-                        ctx.check(au.const(n.slice) == slot["face"], "C01-T1", rsite,
-                                  f"direct_face reads slot {au.src(n.slice)}, the face slot is {slot['face']}",
-                                  f"writer layout: {roles}")
-                else:
-                    ctx.check(False, "C01-T1", rsite, f"unlisted reader {st.name} of the half-edge record",
-                              "a new reader of the record must be given a role in the checker's table")
-    ctx.require_count("C01-T1 readers", n_readers, 6)
+        _, k2, s2 = reads[0]
+        over_all = any(fr.kind in ("keys", "seq") and q.field(_unlist(fr.dom)) == HE for fr in e.frames)
+        cond_ok = all(_is_none_test(t) for t, _ in e.conds)
+        if not over_all or not cond_ok:
+            ctx.undecided("C01-T1", esite, "the opposite slot is not filled in a loop over all half edges guarded by existence tests only", "")
+            continue
+        ok = s_idx == slot["opposite"] and au.const(s2) == slot["corner0"] and q.reversed_pair(k, k2)
+        ctx.check(ok, "C01-T1", esite,
+                  f"a store into slot {s_idx} of the record of a half edge takes slot {au.src(s2)} of "
+                  f"{'the reversed' if q.reversed_pair(k, k2) else 'another'} half edge; the opposite slot is {slot['opposite']}, the corner slot {slot['corner0']}",
+                  "the opposite of half edge (A,B) is the corner recorded for (B,A)", note="opposite slot <- corner of the reversed half edge")
+        n_ok += ok
+    # ---- readers
+    for name, role in ROLE_SLOT.items():
+        rfn = _pub(ctx, SURF, CONN, name)
+        rx = q.summarise(repo, SURF, CONN, rfn, policy=sx.Policy(never={fn.name}))
+        rsite = ctx.site(SURF, rfn)
+        reads = q.record_reads(rx.ret, HE) if rx.ret is not None else []
+        if not reads:
+            ctx.undecided("C01-T1", rsite, f"{name}: no read of a half-edge record in the value it returns", "")
+            continue
+        bad = [au.src(s) for _, _, s in reads if au.const(s) != slot[role]]
+        if any(not isinstance(au.const(s), int) for _, _, s in reads):
+            ctx.undecided("C01-T1", rsite, f"{name}: slot of the half-edge record is not a constant", "")
+            continue
+        ctx.check(not bad, "C01-T1", rsite, f"{name} reads slot {', '.join(bad)} of the half-edge record, the {role} slot is {slot[role]}",
+                  f"writer layout: {roles}", note=f"{name} reads slot {slot[role]}")
+    rfn = _pub(ctx, SURF, CONN, "direct_face")
+    rx = q.summarise(repo, SURF, CONN, rfn, policy=sx.Policy(never={fn.name}))
+    rsite = ctx.site(SURF, rfn)
+    triple = (slot["face"], slot["local0"], slot["local+1"])
+    n_reads = 0
+    verdicts = []
+    for conds, leaf in (sx.leaves(rx.ret) if rx.ret is not None else []):
+        reads = q.record_reads(leaf, HE)
+        if not reads:
+            continue
+        n_reads += 1
+        if len(reads) == 1 and reads[0][0] is leaf and isinstance(leaf.slice, ast.Slice):
+            sl = leaf.slice
+            lo = au.const(sl.lower) if sl.lower is not None else 0
+            hi = au.const(sl.upper) if sl.upper is not None else len(rec.elts)
+            got = tuple(range(lo, hi)) if isinstance(lo, int) and isinstance(hi, int) and sl.step is None else None
+            verdicts.append((got == triple, f"slice {au.src(sl)}"))
+        elif len(reads) == 1 and reads[0][0] is leaf:
+            verdicts.append((au.const(leaf.slice) == slot["face"], f"slot {au.src(leaf.slice)}"))
+        elif isinstance(leaf, (ast.Tuple, ast.List)) and len(leaf.elts) == 3 and all(q.lookup_key(getattr(t, "value", None), HE) is not None for t in leaf.elts):
+            verdicts.append((tuple(au.const(t.slice) for t in leaf.elts) == triple, f"slots {[au.src(t.slice) for t in leaf.elts]}"))
+        else:
+            verdicts.append((None, au.src(leaf)))
+    if not n_reads or any(v is None for v, _ in verdicts):
+        ctx.undecided("C01-T1", rsite, "direct_face: reads of the half-edge record not recognised", "")
+    else:
+        bad = [d for v, d in verdicts if not v]
+        ctx.check(not bad, "C01-T1", rsite,
+                  f"direct_face answers with {', '.join(bad)} of the half-edge record; the face is slot {slot['face']} and (face, i, i+1) are slots {triple}",
+                  f"writer layout: {roles}", note="direct_face reads (face, i, i+1)")
+    return slot
+
+
+def _unlist(t):
+    while isinstance(t, ast.Call) and isinstance(t.func, ast.Name) and t.func.id in ("list", "tuple", "sorted", "set") and len(t.args) == 1:
+        t = t.args[0]
+    if isinstance(t, ast.Call) and isinstance(t.func, ast.Attribute) and t.func.attr in ("keys", "items") and not t.args:
+        t = t.func.value
+    return t
+
+
+def _is_none_test(t):
+    """a (conjunction / disjunction of) `X is None` / `X is not None` / truthiness of a look-up"""
+    if isinstance(t, ast.BoolOp):
+        return all(_is_none_test(v) for v in t.values)
+    if isinstance(t, ast.UnaryOp) and isinstance(t.op, ast.Not):
+        return _is_none_test(t.operand)
+    if isinstance(t, ast.Compare) and len(t.ops) == 1 and isinstance(t.ops[0], (ast.Is, ast.IsNot, ast.In, ast.NotIn)):
+        return True
+    return False
 
 
 # ----------------------------------------------------------------------- C01-O1
+MESH_RECV = {"self.connectivity": (SURF, CONN)}
+
+
 def o1_edge_on_border(ctx):
-    fn = ctx.repo.func(SURF, "SurfaceMesh.is_edge_on_border")
+    fn = _pub(ctx, SURF, "SurfaceMesh", "is_edge_on_border")
     site = ctx.site(SURF, fn)
     ps = au.params(fn, skip_self=True)
-    if len(ps) != 2:
-        ctx.fail("C01-O1", site, "is_edge_on_border does not take (u, v)", "")
-        return
-    u, v = ps
+    if len(ps) < 2:
+        raise AnalysisError("SurfaceMesh.is_edge_on_border no longer takes the two end points of the edge")
+    u, v = ps[:2]
+    x = q.summarise(ctx.repo, SURF, "SurfaceMesh", fn, policy=sx.Policy(also={"edge_to_faces"}), recv=MESH_RECV)
 
-    def atom(e):
-        # X is None  with X a connectivity query
-        if isinstance(e, ast.Compare) and len(e.ops) == 1 and isinstance(e.comparators[0], ast.Constant) \
-                and e.comparators[0].value is None and isinstance(e.left, ast.Call):
-            c = e.left
+    def query(c):
+        if isinstance(c, ast.Call) and isinstance(c.func, ast.Attribute) and not c.keywords:
             args = [a.id if isinstance(a, ast.Name) else None for a in c.args]
-            t = au.call_tail(c)
-            neg = isinstance(e.ops[0], ast.IsNot)
-            name = None
-            if t == "edge_id" and sorted(args) == sorted([u, v]):
-                name = "e_none"
-            elif t == "direct_face" and args == [u, v]:
-                name = "d_uv"
-            elif t == "direct_face" and args == [v, u]:
-                name = "d_vu"
-            if name and isinstance(e.ops[0], (ast.Is, ast.IsNot)):
-                return name, neg
+            if c.func.attr == "edge_id" and sorted(map(str, args)) == sorted([u, v]):
+                return "e_none"
+            if c.func.attr == "direct_face" and args == [u, v]:
+                return "d_uv"
+            if c.func.attr == "direct_face" and args == [v, u]:
+                return "d_vu"
         return None
 
-    try:
-        f = order.return_formula(fn.body)
-    except order.Unsupported as ex:
-        ctx.fail("C01-O1", site, "is_edge_on_border is no longer an if/return chain", str(ex))
+    def atom(t):
+        nt = q.none_test(t)
+        if nt is not None:
+            name = query(nt[0])
+            return (name, nt[1]) if name else None
+        return None
+    if x.ret is None:
+        ctx.undecided("C01-O1", site, "is_edge_on_border: value returned from inside a loop", "")
         return
-    unknown = []
-
-    def ev(e, env):
-        if isinstance(e, ast.BoolOp):
-            vals = [ev(x, env) for x in e.values]
-            return all(vals) if isinstance(e.op, ast.And) else any(vals)
-        if isinstance(e, ast.UnaryOp) and isinstance(e.op, ast.Not):
-            return not ev(e.operand, env)
-        if isinstance(e, ast.Constant):
-            return bool(e.value)
-        a = atom(e)
-        if a is None:
-            unknown.append(au.src(e))
-            return False
-        return env[a[0]] != a[1]
-
-    def evf(f, env):
-        if f[0] == "ite":
-            return evf(f[2], env) if ev(f[1], env) else evf(f[3], env)
-        if f[0] == "ret":
-            return ev(f[1], env) if f[1] is not None else False
-        return False
-    bad = None
-    for e_none, d_uv, d_vu in itertools.product((False, True), repeat=3):
-        env = {"e_none": e_none, "d_uv": d_uv, "d_vu": d_vu}
-        want = (not e_none) and (d_uv or d_vu)
-        if evf(f, env) != want:
-            bad = env
-            break
-    ctx.check(bad is None and not unknown, "C01-O1", site,
-              "is_edge_on_border is not `edge exists and (one of the two sides has no face)`",
-              f"differs from the specification for {bad}" + (f"; unrecognised atoms {unknown}" if unknown else ""),
-              note="8 truth assignments")
+    try:
+        names = q.atoms_in(x.ret, atom)
+        bad = None
+        for env in q.assignments(names | {"e_none", "d_uv", "d_vu"}):
+            want = (not env["e_none"]) and (env["d_uv"] or env["d_vu"])
+            if q.bool_eval(x.ret, env, atom) != want:
+                bad = env
+                break
+    except q.Unknown as ex:
+        ctx.undecided("C01-O1", site, "is_edge_on_border: a condition is not a `<connectivity query> is None` test", str(ex))
+        return
+    ctx.check(bad is None, "C01-O1", site, "is_edge_on_border is not `edge exists and (one of the two sides has no face)`",
+              f"differs from the specification for {bad}", note="8 truth assignments")
 
 
 # ----------------------------------------------------------------------- C01-P1
+def _endpoints(t, edges_attr="edges"):
+    """(edge index term, 0|1) when t is `<..>.edges[E][i]`"""
+    if isinstance(t, ast.Subscript) and au.const(t.slice) in (0, 1) and isinstance(t.value, ast.Subscript) \
+            and isinstance(t.value.value, ast.Attribute) and t.value.value.attr == edges_attr:
+        return t.value.slice, au.const(t.slice)
+    return None
+
+
 def p1_partitions(ctx):
     repo = ctx.repo
-    fn = repo.func(SURF, "SurfaceMesh._compute_interior_boundary_edges")
+    fn = _priv(ctx, "C01-P1", SURF, "SurfaceMesh", "_compute_interior_boundary_edges", field="_boundary_edges")
+
+    def edge_pred(test, var, fr):
+        if isinstance(test, ast.Call) and q.field(test.func) == "is_edge_on_border" and len(test.args) == 2 and not test.keywords:
+            ends = [_endpoints(a) for a in test.args]
+            if None not in ends and all(isinstance(e[0], ast.Name) and e[0].id == var for e in ends) and sorted(e[1] for e in ends) == [0, 1]:
+                return True
+        return None
+    hr.partition(ctx, "C01-P1", SURF, "SurfaceMesh", fn, "_boundary_edges", "_interior_edges", ("edges",), edge_pred, "edges", recv=MESH_RECV)
+    # ---- vertices: both end points of every border edge are flagged and collected; the interior is the complement
+    fn = _priv(ctx, "C01-P1", SURF, "SurfaceMesh", "_compute_interior_boundary_vertices", field="_boundary_vertices")
     site = ctx.site(SURF, fn)
-    common.check_partition(ctx, "C01-P1", SURF, fn, "_boundary_edges", "_interior_edges",
-                           pred_tail="is_edge_on_border", true_side="_boundary_edges")
-    fn = repo.func(SURF, "SurfaceMesh._compute_interior_boundary_vertices")
-    site = ctx.site(SURF, fn)
-    # for e in boundary_edges: a,b = edges[e]; mark both a and b in attribute and set
-    loops = [st for st in au.stmts(fn.body) if isinstance(st, ast.For) and
-             ((au.is_self_attr(st.iter, "boundary_edges")) or au.is_self_attr(st.iter, "_boundary_edges"))]
-    if not loops:
-        ctx.fail("C01-P1", site, "no loop over the border edges in _compute_interior_boundary_vertices",
-                 "border vertices are the endpoints of border edges")
-        return
-    lp = loops[0]
-    b = sym.Bindings(fn)
-    ends = None
-    for st in lp.body:
-        if isinstance(st, ast.Assign) and isinstance(st.targets[0], ast.Tuple) and len(st.targets[0].elts) == 2 \
-                and isinstance(st.value, ast.Subscript) and au.is_self_attr(st.value.value, "edges"):
-            ends = [x.id for x in st.targets[0].elts]
-    if not ends:
-        ctx.fail("C01-P1", site, "endpoints of a border edge are not unpacked from self.edges[e]", "")
-        return
-    marked_attr = {au.src(st.targets[0].slice) for st in lp.body if isinstance(st, ast.Assign)
-                   and isinstance(st.targets[0], ast.Subscript) and au.is_self_attr(st.targets[0].value, "_is_vertex_on_border")
-                   and au.const(st.value) is True}
-    added = {au.src(c.args[0]) for st in lp.body for c in au.calls(st)
-             if au.call_tail(c) in ("add", "append") and isinstance(c.func, ast.Attribute)
-             and au.is_self_attr(c.func.value, "_boundary_vertices") and c.args}
-    ctx.check(marked_attr == set(ends), "C01-P1", site,
-              f"border flag set for {sorted(marked_attr)} instead of both endpoints {ends}",
-              "both endpoints of every border edge are border vertices")
-    ctx.check(added == set(ends), "C01-P1", site,
-              f"border vertex collection receives {sorted(added)} instead of both endpoints {ends}",
-              "both endpoints of every border edge are border vertices")
-    # interior = complement: for x in id_vertices: if not flag[x]: append
-    ok = False
-    for st in au.stmts(fn.body):
-        if isinstance(st, ast.For) and au.is_self_attr(st.iter, "id_vertices") and isinstance(st.target, ast.Name):
-            x = st.target.id
-            for s in st.body:
-                if isinstance(s, ast.If) and isinstance(s.test, ast.UnaryOp) and isinstance(s.test.op, ast.Not) \
-                        and au.src(s.test.operand) == f"self._is_vertex_on_border[{x}]" and not s.orelse:
-                    ok = any(au.call_tail(c) == "append" and au.is_self_attr(c.func.value, "_interior_vertices")
-                             and au.src(c.args[0]) == x for c in au.calls(s))
-    ctx.check(ok, "C01-P1", site, "interior vertices are not `every vertex whose border flag is False`",
-              "interior and border vertices must partition the vertex set")
+    x = q.summarise(repo, SURF, "SurfaceMesh", fn, recv=MESH_RECV)
+    BE = ("boundary_edges", "_boundary_edges")
+
+    def border_end(t, frames):
+        """set of ends ({0}, {1} or {0, 1}) of the border edge visited by a loop over all border edges that term t denotes; None otherwise"""
+        be = [fr for fr in frames if fr.kind == "seq" and q.field(fr.dom) in BE]
+        if len(be) != 1:
+            return None
+        rest = [fr for fr in frames if fr is not be[0]]
+
+        def is_edge(E):
+            return isinstance(E, ast.Subscript) and q.field(E.value) in BE and isinstance(E.slice, ast.Name) and E.slice.id == be[0].var
+        ep = _endpoints(t)
+        if ep is not None and is_edge(ep[0]) and not rest:
+            return {ep[1]}
+        # every end of the edge: a loop over the row of the edge itself
+        if len(rest) == 1 and rest[0].kind == "seq" and isinstance(rest[0].dom, ast.Subscript) and isinstance(rest[0].dom.value, ast.Attribute) \
+                and rest[0].dom.value.attr == "edges" and is_edge(rest[0].dom.slice) and q.same(t, ast.Subscript(value=rest[0].dom, slice=sx.N(rest[0].var), ctx=ast.Load())):
+            return {0, 1}
+        return None
+    flags = [e for e in q.setitems(x, "_is_vertex_on_border") if au.const(e.value) is True]
+    sides = set()
+    unread = False
+    for e in flags:
+        i = border_end(e.key, e.frames)
+        if i is None or e.conds:
+            unread = True
+        else:
+            sides |= i
+    if unread or not flags:
+        ctx.undecided("C01-P1", site, "the border flag of the vertices is not set in a plain loop over the border edges", f"{len(flags)} flag store(s)")
+    else:
+        ctx.check(sides == {0, 1}, "C01-P1", site, f"the border flag is set for end point {sorted(sides)} of each border edge only",
+                  "both end points of every border edge are border vertices", note="both end points flagged")
+    cb = q.Contents(x, "_boundary_vertices", props=("boundary_vertices",))
+    ci = q.Contents(x, "_interior_vertices", props=("interior_vertices",))
+    flag = hr.flag_pred("_is_vertex_on_border", "is_vertex_on_border")
+    ends = [border_end(el, fr) for fr, cs, el, e in cb.ins if not cs]
+    if cb.unknown or not cb.ins:
+        ctx.undecided("C01-P1", site, "filling of self._boundary_vertices not recognised", "")
+    elif len(ends) == len(cb.ins) and None not in ends:
+        ctx.check(set().union(*ends) == {0, 1}, "C01-P1", site, f"the border vertex collection receives end point {sorted(set().union(*ends))} of each border edge only",
+                  "both end points of every border edge are border vertices", note="both end points collected")
+    elif len(cb.ins) == 1 and len(cb.ins[0][0]) == 1 and hr.seq_over(cb.ins[0][0][0], "vertices") and len(cb.ins[0][1]) == 1 \
+            and flag(au.strip_not(*cb.ins[0][1][0])[0], cb.ins[0][0][0].var, None):
+        ctx.check(au.strip_not(*cb.ins[0][1][0])[1], "C01-P1", site, "the border vertex list receives the vertices whose border flag is False", "",
+                  note="border vertices = flagged vertices")
+    else:
+        ctx.undecided("C01-P1", site, "filling of self._boundary_vertices not recognised", "")
+    ok = None
+    if not ci.unknown and len(ci.ins) == 1:
+        fr, cs, el, e = ci.ins[0]
+        if len(fr) == 1 and hr.seq_over(fr[0], "vertices") and isinstance(el, ast.Name) and el.id == fr[0].var and len(cs) == 1:
+            t, pol = au.strip_not(*cs[0])
+            if flag(t, fr[0].var, None):
+                ok = not pol
+            elif isinstance(t, ast.Compare) and len(t.ops) == 1 and isinstance(t.ops[0], (ast.In, ast.NotIn)) and isinstance(t.left, ast.Name) \
+                    and t.left.id == fr[0].var and (q.field(x.canon(t.comparators[0])) in ("_boundary_vertices", "boundary_vertices")):
+                ok = isinstance(t.ops[0], ast.NotIn) == pol
+    if ok is None:
+        ctx.undecided("C01-P1", site, "filling of self._interior_vertices not recognised", "")
+    else:
+        ctx.check(ok, "C01-P1", site, "interior vertices are the vertices whose border flag is True", "interior and border vertices must partition the vertex set",
+                  note="interior = complement of the flagged vertices")
+
+
+# ----------------------------------------------------------------------- C01-S1
+RINGS = {"vertex_to_corners", "vertex_to_vertices", "vertex_to_faces", "vertex_to_edges", "_adjV2Cn", "_adjV2V"}
+
+
+def s1_order_independent_classification(ctx):
+    """the border classification must not read a fixed position of a ring around a vertex: the order of a ring depends on
+    config.sort_neighborhoods, the classification must not"""
+    for qual, fld in (("is_vertex_on_border", None), ("is_edge_on_border", None), ("_compute_interior_boundary_vertices", "_boundary_vertices"),
+                      ("_compute_interior_boundary_edges", "_boundary_edges")):
+        try:
+            fn = _pub(ctx, SURF, "SurfaceMesh", qual) if fld is None else _priv(ctx, "C01-S1", SURF, "SurfaceMesh", qual, field=fld)
+        except _Missing:
+            continue
+        x = q.summarise(ctx.repo, SURF, "SurfaceMesh", fn, recv=MESH_RECV)
+        bad = None
+        terms = [t for _, t in hr.all_terms(x)] + ([x.ret] if x.ret is not None else [])
+        for t in terms:
+            for n in ast.walk(x.expand(t)):
+                if isinstance(n, ast.Subscript) and isinstance(au.const(n.slice), int):
+                    b = n.value
+                    name = None
+                    if isinstance(b, ast.Call) and isinstance(b.func, ast.Attribute):
+                        name = b.func.attr
+                    elif isinstance(b, ast.Subscript) and isinstance(b.value, ast.Attribute):
+                        name = b.value.attr
+                    if name in RINGS:
+                        bad = (name, au.const(n.slice))
+        site = ctx.site(SURF, fn)
+        ctx.check(bad is None, "C01-S1", site,
+                  f"{qual}: the border classification reads position {bad[1] if bad else ''} of the ring {bad[0] if bad else ''} around a vertex",
+                  "the order of the ring around a vertex depends on config.sort_neighborhoods (and on which queries were issued before); "
+                  "the classification must be the same with sorting on or off", note=f"{qual}: no positional read of a vertex ring")
 
 
 # ----------------------------------------------------------------------- C01-P2
 def p2_symmetric_adjacency(ctx):
-    fn = ctx.repo.func(LIN, "PolyLine._Connectivity._compute_connectivity")
+    fn = _priv(ctx, "C01-P2", LIN, "PolyLine._Connectivity", "_compute_connectivity", field="_adjV2V")
     site = ctx.site(LIN, fn)
-    adds = []
-    for c in au.calls(fn):
-        if au.call_tail(c) in ("add", "append") and isinstance(c.func.value, ast.Subscript) \
-                and au.is_self_attr(c.func.value.value, "_adjV2V") and len(c.args) == 1:
-            adds.append((au.src(c.func.value.slice), au.src(c.args[0]), au.enclosing_block(au.enclosing_stmt(c))[0], c))
-    ctx.require_count("C01-P2 adjacency inserts", len(adds), 1)
-    for k, v, blk, c in adds:
-        partner = [a for a in adds if a[0] == v and a[1] == k and a[2] is blk]
-        ctx.check(bool(partner) and k != v, "C01-P2", ctx.site(LIN, fn, c),
-                  f"_adjV2V[{k}] receives {v} but _adjV2V[{v}] does not receive {k} in the same block",
-                  "vertex adjacency must be symmetric: B in N(A) iff A in N(B)")
-    # loop must range over all edges
-    loops = [a for a in au.ancestors(adds[0][3]) if isinstance(a, ast.For)]
-    ok = bool(loops) and au.src(loops[0].iter) == "self.mesh.edges" and not au.guards(adds[0][3], stop=loops[0])
-    ctx.check(ok, "C01-P2", site, "adjacency inserts are not made unconditionally for every edge of self.mesh.edges",
-              "every edge contributes both of its endpoints to the 1-skeleton adjacency")
-
-
-# ----------------------------------------------------------------------- C01-W1
-def w1_rotational_sort(ctx):
-    fn = ctx.repo.func(SURF, CONN + "._sort_vertex_neighborhoods")
-    site = ctx.site(SURF, fn)
-    walks = []  # per inner for-loop: (sign of index step, composition applied to Cn as list of fn names innermost-first, start expr)
-    b_all = list(au.stmts(fn.body))
-    for st in b_all:
-        if not isinstance(st, ast.For) or not isinstance(st.target, ast.Name):
-            continue
-        # a walk = a loop whose own body re-assigns a variable from corner accessors applied to itself (Cn = self.f(self.g(Cn)))
-        if not any(isinstance(s, ast.Assign) and isinstance(s.targets[0], ast.Name) and isinstance(s.value, ast.Call)
-                   and au.is_self_attr(s.value.func) and s.targets[0].id in au.names(s.value) for s in st.body):
-            continue
-        step = None
-        comp = []
-        var = None
-        for s in st.body:
-            inc = au.increment(s)
-            if inc is not None and au.const(inc[2]) == 1 and isinstance(s.targets[0] if isinstance(s, ast.Assign) else s.target, ast.Name):
-                step = inc[1]
-            if isinstance(s, ast.Assign) and isinstance(s.targets[0], ast.Name) and isinstance(s.value, ast.Call):
-                var = s.targets[0].id
-                e = s.value
-                inner = []
-                while isinstance(e, ast.Call) and isinstance(e.func, ast.Attribute) and au.is_self_attr(e.func) and len(e.args) == 1:
-                    inner.append(e.func.attr)
-                    e = e.args[0]
-                if isinstance(e, ast.Name) and e.id == var:
-                    comp += inner[::-1]   # applied innermost first
-        # start value: the assignment to var preceding the loop in the same block
-        blk, _ = au.enclosing_block(st)
-        start = None
-        if blk:
-            for s in blk[:[id(x) for x in blk].index(id(st))]:
-                if isinstance(s, ast.Assign) and isinstance(s.targets[0], ast.Name) and s.targets[0].id == var:
-                    start = au.src(s.value)
-        walks.append((step, comp, start, st))
-    if len(walks) != 2:
-        ctx.fail("C01-W1", site, f"{len(walks)} rotation walk(s) found instead of the clockwise / counter-clockwise pair", "")
+    x = q.summarise(ctx.repo, LIN, "PolyLine._Connectivity", fn)
+    ins = []
+    for e, b in q.method_calls(x, ("add", "append")):
+        k = q.lookup_key(b, "_adjV2V")
+        if k is None and isinstance(b, ast.Call) and isinstance(b.func, ast.Attribute) and b.func.attr == "setdefault" \
+                and q.field(b.func.value) == "_adjV2V" and b.args:
+            k = b.args[0]
+        if k is not None and len(e.args) == 1:
+            ins.append((e, k, e.args[0]))
+    if not ins:
+        ctx.undecided("C01-P2", site, "no insertion into the vertex adjacency self._adjV2V[..]", "")
         return
-    (s1, c1, st1, n1), (s2, c2, st2, n2) = walks
-    inv = {"previous_corner": "next_corner", "next_corner": "previous_corner", "opposite_corner": "opposite_corner"}
-    want = [inv.get(x) for x in reversed(c1)]
-    ctx.check(c1 == ["previous_corner", "opposite_corner"], "C01-W1", ctx.site(SURF, fn, n1),
-              f"clockwise step applies {' then '.join(c1)}; turning around a vertex is `opposite(previous(c))`",
-              "the next corner around a vertex is the opposite of the previous corner in the face")
-    ctx.check(c2 == want, "C01-W1", ctx.site(SURF, fn, n2),
-              f"counter-clockwise step applies {' then '.join(c2)}, the inverse of the clockwise step is {' then '.join(map(str, want))}",
-              "border vertices are walked in both directions; the second walk must undo the first")
-    ctx.check(s1 is not None and s2 is not None and s1 == -s2, "C01-W1", site,
-              f"sort index steps {s1} and {s2} in the two walks (must be opposite)", "the two walks must extend one linear order")
-    ctx.check(st1 is not None and st1 == st2, "C01-W1", site,
-              f"walks start from {st1} and {st2}", "both walks start from the same corner")
+    for e, k, v in ins:
+        esite = ctx.site(LIN, e.fn, e.node)
+        ek, ev = _endpoints(k), _endpoints(v)
+        loop_ok = len(e.frames) == 1 and hr.seq_over(e.frames[0], "edges") and not e.conds
+        if ek is None or ev is None or not loop_ok or not (q.same(ek[0], ev[0]) and isinstance(ek[0], ast.Name) and ek[0].id == e.frames[0].var):
+            ctx.undecided("C01-P2", esite, "insertion into the vertex adjacency not made from the two end points of each edge in a plain loop over the edges", "")
+            continue
+        partner = [o for o in ins if o[0] is not e and q.frame_doms(o[0].frames) == q.frame_doms(e.frames) and not o[0].conds
+                   and q.same(q.alpha(o[1], o[0].frames), q.alpha(v, e.frames)) and q.same(q.alpha(o[2], o[0].frames), q.alpha(k, e.frames))]
+        ctx.check(bool(partner) and ek[1] != ev[1], "C01-P2", esite,
+                  f"end point {ev[1]} of an edge is recorded as neighbour of end point {ek[1]} but not the converse",
+                  "vertex adjacency must be symmetric: B in N(A) iff A in N(B)", note="adjacency inserted both ways")
+
+
+# ----------------------------------------------------------------------- C01-W1 / W2
+ACCESSORS = {"previous_corner", "next_corner", "opposite_corner", "half_edge_to_corner"}
+STEP_NAMES = {"corner-1": "previous corner", "corner+1": "next corner", "opposite": "opposite corner"}
+AROUND_VERTEX = [["corner-1", "opposite"], ["opposite", "corner+1"]]   # opposite(previous(c)) and next(opposite(c)) stay at the vertex of c
+
+
+def _find_sorter(ctx):
+    """the private method that puts the rings around a vertex in rotational order (by name, else: the one method sorting self._adjV2Cn[..])"""
+    r = hr.method_of(ctx.repo, SURF, CONN, SORTER)
+    if r is None:
+        r = hr.method_with(ctx.repo, SURF, CONN, lambda f: any(au.call_tail(c) in ("sort", "sorted") for c in au.calls(f))
+                           and any(au.is_self_attr(n, "_adjV2Cn") for n in au.walk(f)))
+    return r[1] if r else None
+
+
+def _sorter(ctx, rule="C01-W1"):
+    fn = _find_sorter(ctx)
+    if fn is None:
+        ctx.undecided(rule, ctx.site(SURF, CONN), "the method that sorts the rings around a vertex was not found", "")
+        raise _Missing()
+    x = q.summarise(ctx.repo, SURF, CONN, fn, policy=sx.Policy(also=ACCESSORS, never={"_compute_connectivity"}))
+    return fn, x
+
+
+def nav_path(t, slot_role):
+    """(start term, [roles applied, first to last]) of a chain of corner steps read from the half-edge records:
+    record(_Cn2he[c])[slot] applied repeatedly"""
+    roles = []
+    while isinstance(t, ast.Subscript) and isinstance(au.const(t.slice), int):
+        k = q.lookup_key(t.value, HE)
+        c = q.lookup_key(k, "_Cn2he") if k is not None else None
+        if c is None:
+            break
+        roles.append(slot_role.get(au.const(t.slice), f"slot {au.const(t.slice)}"))
+        t = c
+    return t, roles[::-1]
+
+
+def _walks(x, slot_role):
+    """loops that move a corner variable by steps through the half-edge records: [(frame, var, roles, init)]"""
+    frames = []
+    for e in x.effects:
+        for fr in e.frames:
+            if all(fr is not g for g in frames):
+                frames.append(fr)
+    out = []
+    for fr in frames:
+        for name, d in fr.carried.items():
+            if d["next"] is None:
+                continue
+            start, roles = nav_path(sx.assume_not_none(x.expand(d["next"])), slot_role)
+            if roles and isinstance(start, ast.Name) and start.id == f"$mu:{name}:{fr.var}":
+                out.append((fr, name, roles, d["init"]))
+    return out
+
+
+def _counter(fr, x):
+    """(name, sign) of the counters stepped by one per iteration of loop fr"""
+    out = []
+    for name, d in fr.carried.items():
+        if d["next"] is None:
+            continue
+        try:
+            p = sym.to_poly(d["next"], opaque=False)
+        except sym.NotPoly:
+            continue
+        mu = f"$mu:{name}:{fr.var}"
+        if p.coeff(mu) == sym.Poly.const(1) and p.without(mu).is_const() and abs(p.without(mu).const_value()) == 1:
+            out.append((name, int(p.without(mu).const_value())))
+    return out
+
+
+def w1_rotational_sort(ctx, slot):
+    fn, x = _sorter(ctx)
+    site = ctx.site(SURF, fn)
+    if slot is None:
+        ctx.undecided("C01-W1", site, "layout of the half-edge record unknown (see C01-T1): the steps of the rotation walks cannot be read", "")
+        return None
+    slot_role = {v: k for k, v in slot.items()}
+    walks = _walks(x, slot_role)
+    if len(walks) != 2:
+        ctx.undecided("C01-W1", site, f"{len(walks)} loop(s) stepping a corner through the half-edge records found, expected the two directions of rotation", "")
+        return None
+    for fr, name, roles, init in walks:
+        ctx.check(roles in AROUND_VERTEX, "C01-W1", ctx.site(SURF, fn, fr.node),
+                  f"a rotation walk steps to {' then '.join(STEP_NAMES.get(r, r) for r in roles)}: that corner is not at the same vertex",
+                  "turning around a vertex is opposite(previous(c)) in one direction and next(opposite(c)) in the other",
+                  note=f"step {' then '.join(roles)} stays at the vertex")
+    (f1, n1, r1, i1), (f2, n2, r2, i2) = walks
+    if r1 in AROUND_VERTEX and r2 in AROUND_VERTEX:
+        ctx.check(r1 != r2, "C01-W1", site, "both rotation walks turn in the same direction",
+                  "border vertices are walked in both directions; the second walk must undo the first", note="walks are inverse of each other")
+    c1, c2 = _counter(f1, x), _counter(f2, x)
+    if len(c1) != 1 or len(c2) != 1:
+        ctx.undecided("C01-W1", site, "the rank counter of a rotation walk is not a single variable stepped by one per iteration", "")
+    else:
+        ctx.check(c1[0][1] == -c2[0][1], "C01-W1", site, f"the rank counter steps {c1[0][1]:+d} and {c2[0][1]:+d} in the two walks (must be opposite)",
+                  "the two walks must extend one linear order", note="ranks step in opposite directions")
+    ctx.check(q.same(i1, i2), "C01-W1", site, "the two rotation walks start from different corners", "both walks start from the same corner",
+              note="same starting corner")
+    return walks
+
+
+# ----------------------------------------------------------------------- C01-W2
+def w2_sorted_tables(ctx, slot):
+    fn, x = _sorter(ctx, "C01-W2")
+    site = ctx.site(SURF, fn)
+    if slot is None:
+        ctx.undecided("C01-W2", site, "layout of the half-edge record unknown (see C01-T1)", "")
+        return
+    slot_role = {v: k for k, v in slot.items()}
+    walks = _walks(x, slot_role)
+    # the rank table: the local dictionary the walks write `rank[corner] = counter` into
+    ranks = set()
+    for e in x.effects:
+        if e.kind == "setitem" and sx.is_special(e.base, "$obj") and any(e.frames and e.frames[-1] is w[0] for w in walks) \
+                and isinstance(e.key, ast.Name) and e.key.id.startswith("$mu:"):
+            ranks.add(e.base.id)
+    if len(ranks) != 1:
+        ctx.undecided("C01-W2", site, "the table of ranks written by the rotation walks is not recognised", "")
+        return
+    rank = next(iter(ranks))
+    sorts = {}
+    for e, b in q.method_calls(x, ("sort",)):
+        for f in ("_adjV2Cn", "_adjV2V"):
+            k = q.lookup_key(b, f)
+            if k is not None:
+                sorts.setdefault(f, []).append((e, k, (e.kwargs or {}).get("key")))
+    for e in x.effects:
+        if e.kind == "setitem" and q.field(x.canon(e.base)) in ("_adjV2Cn", "_adjV2V") and isinstance(e.value, ast.Call) \
+                and isinstance(e.value.func, ast.Name) and e.value.func.id == "sorted" and len(e.value.args) == 1 \
+                and q.lookup_key(e.value.args[0], q.field(x.canon(e.base))) is not None and q.same(q.lookup_key(e.value.args[0], q.field(x.canon(e.base))), e.key):
+            kw = {k.arg: k.value for k in e.value.keywords}
+            sorts.setdefault(q.field(x.canon(e.base)), []).append((e, e.key, kw.get("key")))
+
+    def vertex_loop(e, k):
+        return isinstance(k, ast.Name) and any(fr.var == k.id and hr.seq_over(fr, "vertices") for fr in e.frames)
+
+    def only_emptiness(e, k):
+        for t, _ in e.conds:
+            names = q.names_in(t) - {"self", "len"}
+            if not ("_adjV2Cn" in au.src(t) and names <= {k.id}):
+                return False
+        return True
+    keyfn = {}
+    for f, what in (("_adjV2Cn", "corners"), ("_adjV2V", "neighbour vertices")):
+        ss = sorts.get(f, [])
+        if not ss and sorts:
+            # one ring is sorted here; is the other one reordered anywhere in the construction of the connectivity?
+            bfn = _priv(ctx, "C01-W2", SURF, CONN, "_compute_connectivity", field="_half_edges")
+            bx = q.summarise(ctx.repo, SURF, CONN, bfn)
+            touched = any(q.lookup_key(b, f) is not None for e, b in q.method_calls(bx, ("sort", "reverse"))) or \
+                any(e.kind == "setitem" and q.field(bx.canon(e.base)) == f and isinstance(e.value, ast.Call) and au.call_tail(e.value) == "sorted" for e in bx.effects)
+            if not touched:
+                ctx.fail("C01-W2", site, f"the {what} around a vertex are never put in rotational order while the other ring is sorted",
+                         "corners and neighbour vertices around a vertex must both come in rotational order (and stay aligned with each other)")
+                continue
+        if len(ss) != 1 or not vertex_loop(*ss[0][:2]) or ss[0][2] is None:
+            ctx.undecided("C01-W2", site, f"the {what} around a vertex are not sorted by one `sort(key=..)` per vertex in the loop over all vertices", "")
+            continue
+        e, k, key = ss[0]
+        if not only_emptiness(e, k):
+            ctx.undecided("C01-W2", ctx.site(SURF, e.fn, e.node), f"the sort of the {what} around a vertex is guarded by a condition that is not about the vertex having corners", "")
+            continue
+        keyfn[f] = (e, k, key)
+    if "_adjV2Cn" in keyfn:
+        e, k, key = keyfn["_adjV2Cn"]
+        t = q.apply_fn(x, key, [sx.N("$c")])
+        if t is None:
+            ctx.undecided("C01-W2", ctx.site(SURF, e.fn, e.node), "sort key of the corners around a vertex not recognised", "")
+        else:
+            t = sx.assume_not_none(t)
+            ctx.check(isinstance(t, ast.Subscript) and sx.is_special(t.value, "$obj") and t.value.id == rank and q.same(t.slice, sx.N("$c")),
+                      "C01-W2", ctx.site(SURF, e.fn, e.node), "corners around a vertex are not sorted by the rank the walks gave them", "",
+                      note="corner key = rank of the corner")
+    if "_adjV2V" in keyfn:
+        e, k, key = keyfn["_adjV2V"]
+        esite = ctx.site(SURF, e.fn, e.node)
+        t = q.apply_fn(x, key, [sx.N("$v")])
+        if t is not None and isinstance(t, ast.Subscript) and sx.is_special(t.value, "$obj") and t.value.id != rank and q.same(t.slice, sx.N("$v")):
+            # key table filled beforehand: D[v] = ... for every neighbour v
+            st = [s for s in x.effects if s.kind == "setitem" and sx.is_special(s.base, "$obj") and s.base.id == t.value.id]
+            nb = ast.Subscript(value=ast.Attribute(value=sx.N("self"), attr="_adjV2V", ctx=ast.Load()), slice=k, ctx=ast.Load())
+            good = [s for s in st if s.frames and s.frames[-1].kind == "seq" and q.same(s.frames[-1].dom, nb)
+                    and q.same(s.key, ast.Subscript(value=nb, slice=sx.N(s.frames[-1].var), ctx=ast.Load())) and s.conds == e.conds]
+            if len(st) != 1 or not good:
+                t = None
+            else:
+                t = sx.substitute(st[0].value, {})
+                v_term = st[0].key
+        elif t is not None:
+            v_term = sx.N("$v")
+        if t is None:
+            ctx.undecided("C01-W2", esite, "sort key of the neighbour vertices around a vertex not recognised", "")
+        else:
+            t = sx.assume_not_none(x.expand(t))
+            ok = None
+            if isinstance(t, ast.Subscript) and sx.is_special(t.value, "$obj") and t.value.id == rank:
+                c = t.slice
+                if isinstance(c, ast.Subscript) and isinstance(au.const(c.slice), int):
+                    hk = q.lookup_key(c.value, HE)
+                    if hk is not None and isinstance(hk, ast.Tuple) and len(hk.elts) == 2:
+                        if au.const(c.slice) != slot["corner0"]:
+                            ok = (False, f"slot {au.const(c.slice)} of the half-edge record instead of its corner")
+                        elif q.same(hk.elts[0], k) and q.same(hk.elts[1], v_term):
+                            ok = (True, "")
+                        elif q.same(hk.elts[1], k) and q.same(hk.elts[0], v_term):
+                            ok = (False, "the half edge arriving from the neighbour instead of the half edge leaving the vertex")
+            if ok is None:
+                ctx.undecided("C01-W2", esite, "sort key of the neighbour vertices around a vertex not recognised", "")
+            else:
+                ctx.check(ok[0], "C01-W2", esite, f"neighbour vertices are ranked through {ok[1]}",
+                          "the neighbour reached by the half edge leaving the vertex at a corner takes the rank of that corner; the reversed half "
+                          "edge belongs to another vertex's corners and has no rank here", note="vertex key = rank of corner of (A, v)")
 
 
 # ----------------------------------------------------------------------- C01-D1
-def d1_opposite_face(ctx):
-    fn = ctx.repo.func(SURF, CONN + ".opposite_face")
+NOBUILD = sx.Policy(never={"_compute_connectivity", "_compute_edge_id", "_compute_face_ids"})
+
+
+def _accessor(ctx, modname, cls, name, policy=None):
+    fn = _pub(ctx, modname, cls, name)
+    if policy is None:
+        policy = sx.Policy(never=NOBUILD.never | hr.builders(ctx.repo, modname, cls))
+    return fn, q.summarise(ctx.repo, modname, cls, fn, policy=policy)
+
+
+def d1_opposite_face(ctx, slot):
+    fn, x = _accessor(ctx, SURF, CONN, "opposite_face", policy=sx.Policy(also={"edge_to_faces"}, never=NOBUILD.never))
     site = ctx.site(SURF, fn)
     ps = au.params(fn, skip_self=True)
-    if len(ps) < 3:
-        ctx.fail("C01-D1", site, "opposite_face no longer takes (u, v, F)", "")
+    if len(ps) < 4:
+        raise AnalysisError("opposite_face no longer takes (u, v, F, return_inds)")
+    u, v, F, ri = ps[:4]
+
+    def side_val(t):
+        """('none',) | ('face', (a, b)) | ('idx', vertex, (a, b)) | ('triple', (a, b)) for values read from the two sides of edge (u, v)"""
+        if isinstance(t, ast.Constant) and t.value is None:
+            return ("none",)
+        if isinstance(t, ast.Call) and q.field(t.func) == "direct_face" and len(t.args) >= 2 and all(isinstance(a, ast.Name) for a in t.args[:2]):
+            ab = (t.args[0].id, t.args[1].id)
+            if set(ab) != {u, v}:
+                return None
+            inds = t.args[2] if len(t.args) > 2 else next((k.value for k in t.keywords if k.arg == "return_inds"), None)
+            if inds is None or au.const(inds) is False:
+                return ("face", ab)
+            return ("triple", ab) if au.const(inds) is True else None
+        if isinstance(t, ast.Subscript):
+            base = side_val(t.value) if not q.lookup_key(t.value, HE) else None
+            if base is not None and base[0] == "triple" and au.const(t.slice) in (0, 1, 2):
+                i = au.const(t.slice)
+                return ("face", base[1]) if i == 0 else ("idx", base[1][i - 1], base[1])
+            k = q.lookup_key(t.value, HE)
+            if k is not None and slot is not None and isinstance(k, ast.Tuple) and len(k.elts) == 2 and all(isinstance(a, ast.Name) for a in k.elts):
+                ab = (k.elts[0].id, k.elts[1].id)
+                if set(ab) != {u, v}:
+                    return None
+                s_ = au.const(t.slice)
+                if s_ == slot["face"]:
+                    return ("face", ab)
+                if s_ == slot["local0"]:
+                    return ("idx", ab[0], ab)
+                if s_ == slot["local+1"]:
+                    return ("idx", ab[1], ab)
+                if isinstance(t.slice, ast.Slice) and au.const(t.slice.lower) == slot["face"] and t.slice.upper is None and t.slice.step is None \
+                        and (slot["local0"], slot["local+1"]) == (slot["face"] + 1, slot["face"] + 2):
+                    return ("triple", ab)
+        return None
+
+    def atom(t):
+        if isinstance(t, ast.Name) and t.id == ri:
+            return "ri"
+        if isinstance(t, ast.Compare) and len(t.ops) == 1 and isinstance(t.ops[0], (ast.Eq, ast.NotEq)):
+            l, r = t.left, t.comparators[0]
+            other = r if isinstance(l, ast.Name) and l.id == F else (l if isinstance(r, ast.Name) and r.id == F else None)
+            sv = side_val(sx.assume_not_none(other)) if other is not None else None
+            if sv and sv[0] == "face":
+                return ("eq_uv" if sv[1] == (u, v) else "eq_vu", isinstance(t.ops[0], ast.Eq))
+        return None
+    if x.ret is None:
+        ctx.undecided("C01-D1", site, "opposite_face: value returned from inside a loop", "")
         return
-    u, v, F = ps[:3]
-    # roles of names unpacked from direct_face(a, b, True)
-    role = {}
-    faces = {}
-    for st in au.stmts(fn.body):
-        if isinstance(st, ast.Assign) and isinstance(st.targets[0], ast.Tuple) and len(st.targets[0].elts) == 3 \
-                and isinstance(st.value, ast.Call) and au.call_tail(st.value) == "direct_face" and len(st.value.args) >= 2 \
-                and all(isinstance(a, ast.Name) for a in st.value.args[:2]):
-            a, b = st.value.args[0].id, st.value.args[1].id
-            names = [x.id if isinstance(x, ast.Name) else None for x in st.targets[0].elts]
-            role[names[0]] = ("face", (a, b))
-            role[names[1]] = ("idx", a, (a, b))
-            role[names[2]] = ("idx", b, (a, b))
-    n = 0
-    for st in au.stmts(fn.body):
-        if isinstance(st, ast.Return) and isinstance(st.value, ast.Tuple) and len(st.value.elts) == 3 \
-                and all(isinstance(x, ast.Name) for x in st.value.elts):
-            f_, iu, iv = (x.id for x in st.value.elts)
-            if f_ not in role:
+    try:
+        q.atoms_in(x.ret, atom, value=False)
+        bad = None
+        for env in q.assignments({"ri", "eq_uv", "eq_vu"}):
+            if env["eq_uv"] and env["eq_vu"]:
                 continue
-            n += 1
-            side = role[f_][1]
-            ok = role.get(iu) == ("idx", u, side) and role.get(iv) == ("idx", v, side)
-            # the returned face must be the one on the *other* side of the one compared with F in the guard
-            gs = [t for t, pol in au.guards(st, stop=fn) if pol]
-            other_side = True
-            for t in gs:
-                if isinstance(t, ast.Compare) and isinstance(t.ops[0], ast.Eq):
-                    names = {au.src(t.left), au.src(t.comparators[0])}
-                    if F in names:
-                        cmpf = (names - {F}).pop() if len(names) == 2 else None
-                        if cmpf in role and role[cmpf][0] == "face":
-                            other_side = role[cmpf][1] == (side[1], side[0])
-            ctx.check(ok and other_side, "C01-D1", ctx.site(SURF, fn, st),
-                      f"opposite_face returns ({f_}, {iu}, {iv}): not (opposite face, index of {u} in it, index of {v} in it)",
-                      f"direct_face(a, b, True) returns (face, local index of a, local index of b); here the roles are "
-                      f"{ {k: role.get(k) for k in (f_, iu, iv)} }", note="indices keep the roles of u and v")
-    ctx.check(n >= 2, "C01-D1", site, "opposite_face(return_inds=True) no longer returns the two (face, i_u, i_v) triples", "")
+            leaf = sx.assume_not_none(q.select(x.ret, env, atom))
+            sv = side_val(leaf)
+            if sv is not None and sv[0] == "triple":
+                got = [("face", sv[1]), ("idx", sv[1][0], sv[1]), ("idx", sv[1][1], sv[1])]
+            elif isinstance(leaf, (ast.Tuple, ast.List)):
+                got = [side_val(e) for e in leaf.elts]
+            else:
+                got = [sv]
+            if None in got:
+                raise q.Unknown(au.src(leaf))
+            side = (v, u) if env["eq_uv"] else ((u, v) if env["eq_vu"] else None)
+            if side is None:
+                want = [("none",)] * (3 if env["ri"] else 1)
+            else:
+                want = [("face", side), ("idx", u, side), ("idx", v, side)] if env["ri"] else [("face", side)]
+            if got != want and bad is None:
+                bad = (env, got, want)
+    except q.Unknown as ex:
+        ctx.undecided("C01-D1", site, "opposite_face: a condition or returned value is not read from the two sides of the edge", str(ex))
+        return
+
+    def show(vals):
+        nm = {u: "u", v: "v"}
+        return "(" + ", ".join("None" if w[0] == "none" else (f"face of ({nm[w[1][0]]},{nm[w[1][1]]})" if w[0] == "face" else
+                                                              f"index of {nm[w[1]]} in the face of ({nm[w[2][0]]},{nm[w[2][1]]})") for w in vals) + ")"
+    ctx.check(bad is None, "C01-D1", site,
+              "opposite_face(u, v, F) does not return (face across the edge, index of u in it, index of v in it)" if bad is None else
+              f"opposite_face(u, v, F) returns {show(bad[1])} where {show(bad[2])} is due",
+              f"case {bad[0]}" if bad else "", note="opposite_face: roles of the values read from the two sides kept in every case")
 
 
 # ----------------------------------------------------------------------- C01-D2
-def _single_return_comp(fn):
-    rets = [st for st in au.stmts(fn.body) if isinstance(st, ast.Return) and st.value is not None]
-    if len(rets) != 1:
-        return None
-    return rets[0].value
+def _one_comp(ctx, rule, x, site, what):
+    v = q.comp_view(x, x.ret) if x.ret is not None else None
+    if v is None:
+        ctx.undecided(rule, site, f"{what} is not recognised as a list built element by element", "")
+    return v
+
+
+def _sorted_fields(ctx):
+    fn, x = _sorter(ctx, "C01-D2")
+    out = set()
+    for e, b in q.method_calls(x, ("sort",)):
+        if isinstance(b, ast.Subscript) and q.field(b.value):
+            out.add(q.field(b.value))
+    return out
 
 
 def d2_derived_accessors(ctx):
     repo = ctx.repo
-    # (module, qualname, source accessor whose order is inherited, element map as a source pattern with {x} and params)
-    table = [
-        (LIN, "PolyLine._Connectivity.vertex_to_edges", "vertex_to_vertices", lambda x, p: {f"self.edge_id({p[0]}, {x})", f"self.edge_id({x}, {p[0]})"}),
-        (SURF, CONN + ".vertex_to_faces", "vertex_to_corners", lambda x, p: {f"self.corner_to_face({x})"}),
-    ]
-    for modname, q, source, emap in table:
-        fn = repo.func(modname, q)
+    # ---- vertex_to_edges / vertex_to_faces: element-wise images of a rotationally sorted ring
+    def edge_of(elt, elem, V):
+        return isinstance(elt, ast.Call) and q.field(elt.func) == "edge_id" and len(elt.args) == 2 and not elt.keywords and \
+            ({au.norm(a) for a in elt.args} == {au.norm(elem), au.norm(sx.N(V))})
+
+    def face_of(elt, elem, V):
+        if isinstance(elt, ast.Call) and q.field(elt.func) == "corner_to_face" and len(elt.args) == 1:
+            return q.same(elt.args[0], elem)
+        return isinstance(elt, ast.Call) and isinstance(elt.func, ast.Attribute) and elt.func.attr == "adj" and len(elt.args) == 1 \
+            and q.is_attr_chain(elt.func.value, "self", "mesh", "face_corners") and q.same(elt.args[0], elem)
+    for modname, cls, name, source, image in [(LIN, "PolyLine._Connectivity", "vertex_to_edges", "vertex_to_vertices", edge_of),
+                                             (SURF, CONN, "vertex_to_faces", "vertex_to_corners", face_of)]:
+        fn, x = _accessor(ctx, modname, cls, name)
         site = ctx.site(modname, fn)
-        ps = au.params(fn, skip_self=True)
-        v = _single_return_comp(fn)
-        ok = False
-        if isinstance(v, ast.ListComp) and len(v.generators) == 1 and not v.generators[0].ifs \
-                and isinstance(v.generators[0].target, ast.Name):
-            it = v.generators[0].iter
-            x = v.generators[0].target.id
-            ok = isinstance(it, ast.Call) and au.is_self_attr(it.func, source) and [au.src(a) for a in it.args] == ps[:1] \
-                and au.src(v.elt) in emap(x, ps)
-        if not ok:
-            # accepted alternative: a cache that is itself sorted with the rotation key in _sort_vertex_neighborhoods
-            reads = {n.attr for n in au.walk(fn) if au.is_self_attr(n) and n.attr.startswith("_adj")}
-            sorter = repo.func(SURF, CONN + "._sort_vertex_neighborhoods")
-            sorted_fields = {c.func.value.value.attr for c in au.calls(sorter) if au.call_tail(c) == "sort"
-                             and isinstance(c.func.value, ast.Subscript) and au.is_self_attr(c.func.value.value)}
-            ok = bool(reads) and reads <= sorted_fields
-        ctx.check(ok, "C01-D2", site,
-                  f"{fn.name} is not the element-wise image of {source}() (nor a table sorted by the rotation key)",
-                  f"{fn.name}(V)[k] must correspond to {source}(V)[k]: the rotational order around the vertex and the alignment of "
-                  f"the two lists are part of the contract", note=f"{fn.name} = map over {source}")
-    # face_to_edges: [edge_id(lF[i], lF[(i+1)%n]) for i in range(n)], n = len(face)
-    fn = repo.func(SURF, CONN + ".face_to_edges")
+        V = au.params(fn, skip_self=True)[0]
+        t = x.ret
+        tab = None
+        if t is not None:
+            k = q.lookup_key(t, q.field(t.value) if isinstance(t, ast.Subscript) else (q.field(t.func.value) if isinstance(t, ast.Call) and isinstance(t.func, ast.Attribute) else None))
+            if k is not None and isinstance(k, ast.Name) and k.id == V:
+                tab = q.field(t.value) if isinstance(t, ast.Subscript) else q.field(t.func.value)
+        if tab is not None:
+            ctx.check(tab in _sorted_fields(ctx), "C01-D2", site,
+                      f"{name} answers from the stored table self.{tab}, which is not put in rotational order by _sort_vertex_neighborhoods",
+                      f"{name}(V)[k] must correspond to {source}(V)[k]: the rotational order around the vertex and the alignment of the two lists are part of the contract",
+                      note=f"{name} reads a rotationally sorted table")
+            continue
+        v = _one_comp(ctx, "C01-D2", x, site, name)
+        if v is None:
+            continue
+        frames, conds, elt = v
+        src_ok = len(frames) == 1 and frames[0].kind == "seq" and isinstance(frames[0].dom, ast.Call) and q.field(frames[0].dom.func) == source \
+            and len(frames[0].dom.args) == 1 and q.same(frames[0].dom.args[0], sx.N(V))
+        if not src_ok:
+            ctx.undecided("C01-D2", site, f"{name} does not run over {source}(V)", "")
+            continue
+        elem = ast.Subscript(value=frames[0].dom, slice=sx.N(frames[0].var), ctx=ast.Load())
+        if conds:
+            truthy = [t for t, p in conds if p and image(t, elem, V)]
+            if truthy:
+                ctx.fail("C01-D2", site, f"{name} drops the elements of {source}(V) whose image is falsy (index 0 is a valid index)",
+                         f"{name}(V)[k] must correspond to {source}(V)[k] (same length, same rotational order)")
+            else:
+                ctx.undecided("C01-D2", site, f"{name} filters the elements of {source}(V)", f"{[au.canon_test(t, p) for t, p in conds]}")
+            continue
+        if not image(elt, elem, V):
+            ctx.undecided("C01-D2", site, f"{name}: the image of an element of {source}(V) is not recognised", au.src(elt))
+            continue
+        ctx.ok("C01-D2", site, f"{name} = map over {source}")
+    # ---- face_to_edges
+    fn, x = _accessor(ctx, SURF, CONN, "face_to_edges")
     site = ctx.site(SURF, fn)
-    b = sym.Bindings(fn)
-    v = _single_return_comp(fn)
-    ok = False
-    if isinstance(v, ast.ListComp) and len(v.generators) == 1 and not v.generators[0].ifs and isinstance(v.generators[0].target, ast.Name):
-        i = v.generators[0].target.id
-        it = v.generators[0].iter
-        if isinstance(it, ast.Call) and au.call_tail(it) == "range" and len(it.args) == 1 and isinstance(v.elt, ast.Call) \
-                and au.is_self_attr(v.elt.func, "edge_id") and len(v.elt.args) == 2:
-            nsrc = au.src(it.args[0])
-            rows = set()
-            offs = []
-            for a in v.elt.args:
-                if isinstance(a, ast.Subscript):
-                    rows.add(au.src(b.resolve(a.value, at=v)))
-                    offs.append(sym.mod_offset(a.slice, i, nsrc))
-                else:
-                    offs.append(None)
-            F = au.params(fn, skip_self=True)[0]
-            n_ok = au.src(b.resolve(it.args[0], at=v)) in (f"len(self.mesh.faces[{F}])",)
-            ok = n_ok and rows == {f"self.mesh.faces[{F}]"} and sorted(o for o in offs if o is not None) == [0, 1] and None not in offs
-    ctx.check(ok, "C01-D2", site, "face_to_edges is not [edge_id(f[i], f[(i+1) % n]) for i in range(n)] over the face's own row",
-              "the k-th edge of a face is the side leaving its k-th vertex", note="face_to_edges = sides in face order")
-    # face_to_corners: [first + i for i in range(len(face))]
-    fn = repo.func(SURF, CONN + ".face_to_corners")
-    site = ctx.site(SURF, fn)
-    v = _single_return_comp(fn)
-    ok = False
     F = au.params(fn, skip_self=True)[0]
-    if isinstance(v, ast.ListComp) and len(v.generators) == 1 and not v.generators[0].ifs and isinstance(v.generators[0].target, ast.Name):
-        i = v.generators[0].target.id
-        it = v.generators[0].iter
-        p = sym.to_poly(v.elt, atom_of=lambda e: "FIRST" if au.src(e) in (f"self._adjF2Cn[{F}]", f"self.face_to_first_corner({F})") else None)
-        ok = p == sym.Poly.atom("FIRST") + sym.Poly.atom(i) and au.src(it) == f"range(len(self.mesh.faces[{F}]))"
-    ctx.check(ok, "C01-D2", site, "face_to_corners is not [first corner + i for i in range(len(face))]",
-              "corners of a face are stored consecutively, in the order of its vertices", note="face_to_corners consecutive")
-    # face_to_faces: corner_to_face(opposite_corner(C)) for C in face_to_corners(F), None dropped
-    fn = repo.func(SURF, CONN + ".face_to_faces")
+    row = _faces_row(F)
+    v = _one_comp(ctx, "C01-D2", x, site, "face_to_edges")
+    if v is not None:
+        frames, conds, elt = v
+        verdict = _sides_loop(frames, conds, row)
+        if verdict is None or not (isinstance(elt, ast.Call) and q.field(elt.func) == "edge_id" and len(elt.args) == 2):
+            ctx.undecided("C01-D2", site, "face_to_edges is not recognised as one edge_id(..) per index of the face", "")
+        elif verdict is not True:
+            ctx.fail("C01-D2", site, f"face_to_edges {verdict}", "the k-th edge of a face is the side leaving its k-th vertex; a face has as many sides as vertices")
+        else:
+            offs = [q.row_offset(a, frames[0].var, row) for a in elt.args]
+            if None in offs:
+                ctx.undecided("C01-D2", site, "face_to_edges: end points of a side not recognised", "")
+            else:
+                ctx.check(sorted(offs) == [0, 1], "C01-D2", site, f"face_to_edges joins vertices {offs[0]:+d} and {offs[1]:+d} of the face (relative to the k-th)",
+                          "the k-th edge of a face is the side leaving its k-th vertex", note="face_to_edges = sides in face order")
+    # ---- face_to_corners
+    fn, x = _accessor(ctx, SURF, CONN, "face_to_corners")
     site = ctx.site(SURF, fn)
-    b = sym.Bindings(fn)
-    v = _single_return_comp(fn)
-    ok = False
     F = au.params(fn, skip_self=True)[0]
-    if isinstance(v, ast.ListComp) and len(v.generators) == 1 and isinstance(v.generators[0].target, ast.Name):
-        x = v.generators[0].target.id
-        src_it = b.resolve(v.generators[0].iter, at=v)
-        filt = [au.src(t) for t in v.generators[0].ifs]
-        if au.src(v.elt) == f"self.corner_to_face({x})" and filt == [f"{x} is not None"] and isinstance(src_it, ast.ListComp) \
-                and len(src_it.generators) == 1 and not src_it.generators[0].ifs:
-            y = src_it.generators[0].target.id
-            ok = au.src(src_it.elt) == f"self.opposite_corner({y})" and au.src(src_it.generators[0].iter) == f"self.face_to_corners({F})"
-    ctx.check(ok, "C01-D2", site, "face_to_faces is not [face of the opposite corner, for each corner of the face, border sides dropped]",
-              "faces around a face are the faces across each of its sides, in side order", note="face_to_faces via opposite corners")
-    # edge_to_faces: (direct_face(u,v), direct_face(v,u))
-    fn = repo.func(SURF, CONN + ".edge_to_faces")
-    ps = au.params(fn, skip_self=True)
-    v = _single_return_comp(fn)
-    ok = isinstance(v, ast.Tuple) and [au.src(e) for e in v.elts] == [f"self.direct_face({ps[0]}, {ps[1]})", f"self.direct_face({ps[1]}, {ps[0]})"]
-    ctx.check(ok, "C01-D2", ctx.site(SURF, fn), "edge_to_faces is not (direct_face(u,v), direct_face(v,u))",
-              "the face on either side of an edge", note="edge_to_faces = both sides")
+    row = _faces_row(F)
+    rng = q._strip_conv(x.ret) if x.ret is not None else None
+    first = lambda e: "FIRST" if (q.lookup_key(e, "_adjF2Cn") is not None and q.same(q.lookup_key(e, "_adjF2Cn"), sx.N(F))) or \
+        (isinstance(e, ast.Call) and q.field(e.func) == "face_to_first_corner" and len(e.args) == 1 and q.same(e.args[0], sx.N(F))) else None
+    v = None
+    if isinstance(rng, ast.Call) and isinstance(rng.func, ast.Name) and rng.func.id == "range" and len(rng.args) == 2 and not rng.keywords:
+        ln = lambda e: "LEN" if isinstance(e, ast.Call) and isinstance(e.func, ast.Name) and e.func.id == "len" and len(e.args) == 1 and q.same(e.args[0], row) else None
+        lo, hi = sym.to_poly(rng.args[0], atom_of=first), sym.to_poly(rng.args[1], atom_of=lambda e: first(e) or ln(e))
+        if lo == sym.Poly.atom("FIRST") and (hi - lo - sym.Poly.atom("LEN")).is_const():
+            d = int((hi - lo - sym.Poly.atom("LEN")).const_value())
+            ctx.check(d == 0, "C01-D2", site, f"face_to_corners lists {d:+d} corners compared with the number of vertices of the face",
+                      "corners of a face are stored consecutively, in the order of its vertices", note="face_to_corners = range(first, first + n)")
+        else:
+            ctx.undecided("C01-D2", site, "face_to_corners: range not recognised as starting at the first corner of the face", "")
+    else:
+        v = _one_comp(ctx, "C01-D2", x, site, "face_to_corners")
+    if v is not None:
+        frames, conds, elt = v
+        verdict = _sides_loop(frames, conds, row)
+        if verdict is None:
+            ctx.undecided("C01-D2", site, "face_to_corners is not recognised as one corner per index of the face", "")
+        elif verdict is not True:
+            ctx.fail("C01-D2", site, f"face_to_corners {verdict}", "a face has as many corners as vertices")
+        else:
+            p = sym.to_poly(elt, atom_of=first)
+            if "FIRST" not in p.atoms():
+                ctx.undecided("C01-D2", site, "face_to_corners: corner not computed from the first corner of the face", "")
+            else:
+                ctx.check(p == sym.Poly.atom("FIRST") + sym.Poly.atom(frames[0].var), "C01-D2", site,
+                          "face_to_corners is not [first corner + k for each index k of the face]",
+                          "corners of a face are stored consecutively, in the order of its vertices", note="face_to_corners consecutive")
+    # ---- face_to_faces
+    fn, x = _accessor(ctx, SURF, CONN, "face_to_faces")
+    site = ctx.site(SURF, fn)
+    F = au.params(fn, skip_self=True)[0]
+    v = _one_comp(ctx, "C01-D2", x, site, "face_to_faces")
+    if v is not None:
+        frames, conds, elt = v
+        ok = len(frames) == 1 and frames[0].kind == "seq" and isinstance(frames[0].dom, ast.Call) and q.field(frames[0].dom.func) == "face_to_corners" \
+            and len(frames[0].dom.args) == 1 and q.same(frames[0].dom.args[0], sx.N(F))
+        if ok:
+            elem = ast.Subscript(value=frames[0].dom, slice=sx.N(frames[0].var), ctx=ast.Load())
+            opp = lambda t: isinstance(t, ast.Call) and q.field(t.func) == "opposite_corner" and len(t.args) == 1 and q.same(t.args[0], elem)
+            elt_ok = isinstance(elt, ast.Call) and q.field(elt.func) == "corner_to_face" and len(elt.args) == 1 and opp(elt.args[0])
+            filt = [q.holds_none(t, p) for t, p in conds]
+            filt_ok = len(conds) == 1 and filt[0] is not None and filt[0][1] is False and opp(filt[0][0])
+        if not ok or not elt_ok or (conds and not filt_ok):
+            ctx.undecided("C01-D2", site, "face_to_faces is not recognised as `face of the opposite corner` of each corner of the face", "")
+        else:
+            ctx.check(bool(conds), "C01-D2", site, "face_to_faces does not drop the sides that have no opposite corner",
+                      "faces around a face are the faces across each of its sides, border sides dropped", note="face_to_faces via opposite corners")
+    # ---- edge_to_faces
+    fn, x = _accessor(ctx, SURF, CONN, "edge_to_faces")
+    site = ctx.site(SURF, fn)
+    u, v_ = au.params(fn, skip_self=True)[:2]
+    t = x.ret
+
+    def df(e):
+        if isinstance(e, ast.Call) and q.field(e.func) == "direct_face" and len(e.args) == 2 and not e.keywords and all(isinstance(a, ast.Name) for a in e.args):
+            return (e.args[0].id, e.args[1].id)
+        return None
+    if not (isinstance(t, (ast.Tuple, ast.List)) and len(t.elts) == 2 and None not in [df(e) for e in t.elts]):
+        ctx.undecided("C01-D2", site, "edge_to_faces is not a pair of direct_face(..) answers", "")
+    else:
+        ctx.check([df(e) for e in t.elts] == [(u, v_), (v_, u)], "C01-D2", site,
+                  "edge_to_faces(u, v) does not return (direct_face(u,v), direct_face(v,u)) in that order", "the face on either side of an edge, direct side first",
+                  note="edge_to_faces = both sides")
 
 
-# ----------------------------------------------------------------------- C01-W2
-def w2_sorted_tables(ctx):
-    fn = ctx.repo.func(SURF, CONN + "._sort_vertex_neighborhoods")
-    site = ctx.site(SURF, fn)
-    outer = [st for st in fn.body if isinstance(st, ast.For)]
-    if len(outer) != 1 or not isinstance(outer[0].target, ast.Name):
-        ctx.fail("C01-W2", site, "_sort_vertex_neighborhoods is no longer one loop over the vertices", "")
-        return
-    A = outer[0].target.id
-    sorts = {}
-    b = sym.Bindings(fn)
-    for st in au.stmts(outer[0].body):
-        if isinstance(st, ast.Expr) and isinstance(st.value, ast.Call) and au.call_tail(st.value) == "sort" \
-                and isinstance(st.value.func.value, ast.Subscript) and au.is_self_attr(st.value.func.value.value) \
-                and au.src(st.value.func.value.slice) == A:
-            # unconditional for every vertex that has corners: the only admissible condition is a test on the corner list itself
-            conds = [b.resolve(t, at=st, keep=(A,)) for t, _ in au.conditions(st, stop=outer[0])]
-            if all("_adjV2Cn" in au.src(t) and set(au.names(t)) <= {"len", "self", A} for t in conds):
-                key = next((k.value for k in st.value.keywords if k.arg == "key"), None)
-                sorts[st.value.func.value.value.attr] = key
-    for field in ("_adjV2Cn", "_adjV2V"):
-        ctx.check(field in sorts, "C01-W2", site, f"self.{field}[{A}] is not sorted unconditionally for every vertex that has corners",
-                  "corners / neighbour vertices around a vertex must come in rotational order", note=f"{field} sorted per vertex")
-    # corner key = sort_index[c]
-    k = sorts.get("_adjV2Cn")
-    idx_name = None
-    ok = isinstance(k, ast.Lambda) and isinstance(k.body, ast.Subscript) and isinstance(k.body.value, ast.Name) \
-        and au.src(k.body.slice) == k.args.args[0].arg
-    if ok:
-        idx_name = k.body.value.id
-    ctx.check(ok, "C01-W2", site, "corners around a vertex are not sorted by the index assigned to them by the walks", "")
-    # vertex key = D[v] with D[v] = sort_index.get(half_edge_to_corner(A, v), <minimum>)
-    k = sorts.get("_adjV2V")
-    okv = False
-    if isinstance(k, ast.Lambda) and isinstance(k.body, ast.Subscript) and isinstance(k.body.value, ast.Name):
-        dname = k.body.value.id
-        for st in au.stmts(outer[0].body):
-            if isinstance(st, ast.Assign) and isinstance(st.targets[0], ast.Subscript) and au.src(st.targets[0].value) == dname:
-                v = au.src(st.targets[0].slice)
-                val = st.value
-                if isinstance(val, ast.Call) and au.call_tail(val) == "get" and isinstance(val.func.value, ast.Name) \
-                        and val.func.value.id == idx_name and val.args and isinstance(val.args[0], ast.Call) \
-                        and au.call_tail(val.args[0]) == "half_edge_to_corner":
-                    args = [au.src(a) for a in val.args[0].args]
-                    loops = [a for a in au.ancestors(st) if isinstance(a, ast.For)]
-                    over_all = bool(loops) and au.src(loops[0].iter) == f"self._adjV2V[{A}]" and not au.conditions(st, stop=loops[0])
-                    okv = args == [A, v] and over_all
-    ctx.check(okv, "C01-W2", site,
-              f"neighbour vertices are not keyed by sort_index[corner of the half edge ({A}, v)] for every neighbour v",
-              "the neighbour reached by the half edge leaving the vertex at a corner takes the rank of that corner; the reversed half "
-              "edge belongs to another vertex's corners and has no rank here", note="vertex key = rank of corner of (A, v)")
+def _faces_row(F):
+    return ast.Subscript(value=ast.Attribute(value=ast.Attribute(value=sx.N("self"), attr="mesh", ctx=ast.Load()), attr="faces", ctx=ast.Load()),
+                         slice=sx.N(F), ctx=ast.Load())
+
+
+def _sides_loop(frames, conds, row):
+    """True when the loop visits every index of the face once; a text when it recognisably does not; None when not recognised"""
+    if len(frames) != 1:
+        return None
+    fr = frames[0]
+    if conds:
+        return None
+    if fr.kind == "seq" and not fr.extra and q.same(fr.dom, row):
+        return True
+    if fr.kind == "range" and not isinstance(fr.dom, ast.Tuple):
+        try:
+            p = sym.to_poly(fr.dom, atom_of=lambda e: "LEN" if isinstance(e, ast.Call) and isinstance(e.func, ast.Name) and e.func.id == "len"
+                            and len(e.args) == 1 and q.same(e.args[0], row) else None, opaque=False)
+        except sym.NotPoly:
+            return None
+        d = p - sym.Poly.atom("LEN")
+        if d.is_const() and d.const_value() != 0:
+            return f"runs over {int(d.const_value()):+d} indices compared with the number of vertices of the face"
+    return None
 
 
 # ----------------------------------------------------------------------- C01-D3
 def d3_definitional_accessors(ctx):
     repo = ctx.repo
-    # other_edge_end(E, V): A,B = edges[E]; V==A -> B ; V==B -> A ; else None
-    fn = repo.func(LIN, "PolyLine._Connectivity.other_edge_end")
+    # ---- other_edge_end(E, V)
+    fn, x = _accessor(ctx, LIN, "PolyLine._Connectivity", "other_edge_end")
     site = ctx.site(LIN, fn)
-    ps = au.params(fn, skip_self=True)
-    ends = None
-    body = []
-    for st in fn.body:
-        if isinstance(st, ast.Assign) and isinstance(st.targets[0], ast.Tuple) and len(st.targets[0].elts) == 2 \
-                and isinstance(st.value, ast.Subscript) and au.src(st.value) == f"self.mesh.edges[{ps[0]}]":
-            ends = [x.id for x in st.targets[0].elts]
-        elif not (isinstance(st, ast.Expr) and isinstance(st.value, ast.Constant)):
-            body.append(st)
-    ok = False
-    if ends and len(ps) == 2:
-        try:
-            f = order.return_formula(body)
-            pred = order.Pred(lambda node: {ps[1]: "V", ends[0]: "A", ends[1]: "B"}.get(au.src(node)) or (_ for _ in ()).throw(order.Unsupported(au.src(node))))
-            ok = True
-            for env in order.envs({"V", "A", "B"}, set()):
-                if env["A"] == env["B"]:
-                    continue   # an edge never joins a vertex to itself
-                got = order.eval_formula(f, pred, env, leaf=lambda e, en: None if e is None or au.src(e) == "None" else {ends[0]: "A", ends[1]: "B"}.get(au.src(e), "?"))
-                want = "B" if env["V"] == env["A"] else ("A" if env["V"] == env["B"] else None)
-                if got != want:
-                    ok = False
-        except order.Unsupported:
-            ok = False
-    ctx.check(ok, "C01-D3", site, "other_edge_end(E, V) is not `the other endpoint of E if V is one of its endpoints, else None`", "",
-              note="other_edge_end under every ordering of (V, A, B)")
-    # in_face_index(F, V): for i,v in enumerate(faces[F]): if v == V: return i ; return None
-    fn = repo.func(SURF, CONN + ".in_face_index")
+    E, V = au.params(fn, skip_self=True)[:2]
+    hr.two_ended(ctx, "C01-D3", site, x, "other_edge_end(E, V)", V,
+                 lambda t: (_endpoints(t) or (None, None))[1] if _endpoints(t) and q.same(_endpoints(t)[0], sx.N(E)) else None,
+                 "the other endpoint of E if V is one of its endpoints, else None")
+    # ---- in_face_index(F, V)
+    fn, x = _accessor(ctx, SURF, CONN, "in_face_index")
+    site = ctx.site(SURF, fn)
+    F, V = au.params(fn, skip_self=True)[:2]
+    hr.position_of(ctx, "C01-D3", site, x, "in_face_index(F, V)", _faces_row(F), V)
+    # ---- direct_face(u, v)
+    fn, x = _accessor(ctx, SURF, CONN, "direct_face")
     site = ctx.site(SURF, fn)
     ps = au.params(fn, skip_self=True)
-    ok = False
-    for st in fn.body:
-        if isinstance(st, ast.For) and isinstance(st.iter, ast.Call) and au.call_tail(st.iter) == "enumerate" \
-                and au.src(st.iter.args[0]) == f"self.mesh.faces[{ps[0]}]" and isinstance(st.target, ast.Tuple):
-            i, v = (x.id for x in st.target.elts)
-            for s_ in st.body:
-                if isinstance(s_, ast.If) and isinstance(s_.test, ast.Compare) and isinstance(s_.test.ops[0], ast.Eq) \
-                        and {au.src(s_.test.left), au.src(s_.test.comparators[0])} == {v, ps[1]} \
-                        and len(s_.body) == 1 and isinstance(s_.body[0], ast.Return) and au.src(s_.body[0].value) == i:
-                    ok = True
-    last = fn.body[-1]
-    ok = ok and isinstance(last, ast.Return) and (last.value is None or au.src(last.value) == "None")
-    ctx.check(ok, "C01-D3", site, "in_face_index(F, V) is not `position of V in faces[F], None if absent`", "", note="in_face_index")
-    # direct_face: answers from the record iff (u,v) is a key
-    fn = repo.func(SURF, CONN + ".direct_face")
-    site = ctx.site(SURF, fn)
-    u, v = au.params(fn, skip_self=True)[:2]
-    ok = False
-    from .. import decide
+    u, v = ps[:2]
 
-    def atom(e):
-        if isinstance(e, ast.Compare) and len(e.ops) == 1 and isinstance(e.ops[0], (ast.In, ast.NotIn)) \
-                and au.src(e.left) == f"({u}, {v})" and au.is_self_attr(e.comparators[0], "_half_edges"):
-            return ("present", isinstance(e.ops[0], ast.In))
-        if isinstance(e, ast.Name) and e.id in au.params(fn):
-            return e.id
-        if isinstance(e, ast.Compare) and len(e.ops) == 1 and isinstance(e.ops[0], (ast.Is, ast.IsNot)) and au.is_self_attr(e.left) \
-                and au.const(e.comparators[0], 0) is None:
-            return ("cold:" + e.left.attr, isinstance(e.ops[0], ast.Is))
+    def is_uv(k):
+        return isinstance(k, ast.Tuple) and len(k.elts) == 2 and q.same(k.elts[0], sx.N(u)) and q.same(k.elts[1], sx.N(v))
+
+    def atom(t):
+        if isinstance(t, ast.Compare) and len(t.ops) == 1 and isinstance(t.ops[0], (ast.In, ast.NotIn)) and q.field(t.comparators[0]) == HE and is_uv(t.left):
+            return ("present", isinstance(t.ops[0], ast.In))
+        nt = q.none_test(t)
+        if nt is not None and q.lookup_key(nt[0], HE) is not None and is_uv(q.lookup_key(nt[0], HE)):
+            return ("present", not nt[1])
+        if isinstance(t, ast.Name) and t.id in ps:
+            return t.id
         return None
-    try:
-        names, rows = decide.table(fn.body, atom)
-        ok = "present" in names
-        for env, taken in rows:
-            if len(taken) != 1:
-                ok = False
-                continue
-            rets = [st for st in taken[0].stmts if isinstance(st, ast.Return)]
-            reads = [n for st in rets for n in au.walk(st) if isinstance(n, ast.Subscript) and au.is_self_attr(n.value, "_half_edges")]
-            if env["present"]:
-                ok = ok and bool(rets) and bool(reads) and all(au.src(r.slice) == f"({u}, {v})" for r in reads)
-            else:
-                ok = ok and bool(rets) and not reads and all(au.src(r.value).replace(" ", "") in ("None", "(None,None,None)") for r in rets)
-    except decide.Unknown:
-        ok = False
-    ctx.check(ok, "C01-D3", site, "direct_face(u, v) does not answer from the record of (u, v) exactly when that half edge exists (None otherwise)", "",
-              note="direct_face present / absent")
-    # common_edge(iF1, iF2): for each side (A,B) of F1: if opposite_face(A,B,iF1) == iF2: return keyify(A,B)
-    fn = repo.func(SURF, CONN + ".common_edge")
+    if x.ret is None:
+        ctx.undecided("C01-D3", site, "direct_face: value returned from inside a loop", "")
+    else:
+        try:
+            names = q.atoms_in(x.ret, atom, value=False)
+            verdict = True if "present" in names else None
+            for env in q.assignments(names):
+                leaf = q.select(x.ret, env, atom)
+                reads = q.record_reads(leaf, HE)
+                if env.get("present"):
+                    if not reads:
+                        verdict = None
+                    elif not all(is_uv(k) for _, k, _ in reads) and verdict is not None:
+                        verdict = "when the half edge (u, v) exists the answer is read from the record of another half edge"
+                else:
+                    nones = isinstance(leaf, ast.Constant) and leaf.value is None or \
+                        (isinstance(leaf, (ast.Tuple, ast.List)) and all(isinstance(e, ast.Constant) and e.value is None for e in leaf.elts))
+                    if reads and verdict is not None:
+                        verdict = "when the half edge (u, v) does not exist the answer is still read from a record"
+                    elif not nones and not reads:
+                        verdict = None
+        except q.Unknown:
+            verdict = None
+        if verdict is None:
+            ctx.undecided("C01-D3", site, "direct_face is not recognised as a look-up of the record of (u, v)", "")
+        else:
+            ctx.check(verdict is True, "C01-D3", site, f"direct_face(u, v): {verdict}", "direct_face(u, v) answers from the record of (u, v) exactly when that half edge exists (None otherwise)",
+                      note="direct_face present / absent")
+    # ---- common_edge(iF1, iF2)
+    fn, x = _accessor(ctx, SURF, CONN, "common_edge")
     site = ctx.site(SURF, fn)
     f1, f2 = au.params(fn, skip_self=True)[:2]
-    b = sym.Bindings(fn)
-    ok = False
-    for st in au.stmts(fn.body):
-        if isinstance(st, ast.If) and isinstance(st.test, ast.Compare) and isinstance(st.test.ops[0], ast.Eq):
-            sides = [st.test.left, st.test.comparators[0]]
-            call = next((x for x in sides if isinstance(x, ast.Call) and au.call_tail(x) == "opposite_face"), None)
-            other = next((x for x in sides if x is not call), None)
-            loops = [a for a in au.ancestors(st) if isinstance(a, ast.For)]
-            if call is None or other is None or au.src(other) != f2 or not loops:
-                continue
-            i = loops[0].target.id if isinstance(loops[0].target, ast.Name) else None
-            nsrc = au.src(loops[0].iter.args[0]) if isinstance(loops[0].iter, ast.Call) and loops[0].iter.args else None
-            args = [b.resolve(a, at=st, keep=(i, nsrc, f1)) for a in call.args]
-            offs = []
-            for a in args[:2]:
-                if isinstance(a, ast.Subscript) and au.src(b.resolve(a.value, at=st, keep=(f1,))) == f"self.mesh.faces[{f1}]":
-                    offs.append(sym.mod_offset(a.slice, i, nsrc))
-                else:
-                    offs.append(None)
-            n_ok = nsrc is not None and au.src(b.resolve(loops[0].iter.args[0], at=loops[0], keep=(f1,))) == f"len(self.mesh.faces[{f1}])"
-            ret = [r for r in st.body if isinstance(r, ast.Return)]
-            ret_ok = bool(ret) and isinstance(ret[0].value, ast.Call) and au.call_tail(ret[0].value) == "keyify" \
-                and [au.src(x) for x in ret[0].value.args] == [au.src(x) for x in call.args[:2]]
-            ok = n_ok and offs == [0, 1] and len(args) >= 3 and au.src(args[2]) == f1 and ret_ok
-    ctx.check(ok, "C01-D3", site, "common_edge(F1, F2) does not test every side (f[i], f[i+1]) of F1 for `opposite face across it is F2`", "",
-              note="common_edge over all sides")
+    row = _faces_row(f1)
+    sf = q.search_form(x)
+    verdict = None
+    if sf is not None:
+        frames, conds, value, default = sf
+        if _sides_loop(frames, [], row) is True and len(conds) == 1:
+            he = q.holds_eq(*conds[0])
+            if he is not None and he[2]:
+                sides = [he[0], he[1]]
+                call = next((c for c in sides if isinstance(c, ast.Call) and q.field(c.func) == "opposite_face" and len(c.args) >= 3), None)
+                other = next((c for c in sides if c is not call), None)
+                if call is not None and isinstance(other, ast.Name):
+                    offs = [q.row_offset(a, frames[0].var, row) for a in call.args[:2]]
+                    val_ok = isinstance(value, ast.Call) and au.call_tail(value) == "keyify" and len(value.args) == 2 \
+                        and {au.norm(a) for a in value.args} == {au.norm(a) for a in call.args[:2]}
+                    if None not in offs and isinstance(call.args[2], ast.Name) and val_ok:
+                        if sorted(offs) != [0, 1]:
+                            verdict = f"tests the pair of vertices {offs[0]:+d}, {offs[1]:+d} of the face, which is not a side"
+                        elif (call.args[2].id, other.id) != (f1, f2):
+                            verdict = f"asks for the face opposite to {call.args[2].id} and compares it with {other.id}"
+                        else:
+                            verdict = True
+    if verdict is None:
+        ctx.undecided("C01-D3", site, "common_edge is not recognised as a search over the sides of the first face", "")
+    else:
+        ctx.check(verdict is True, "C01-D3", site, f"common_edge(F1, F2) {verdict}",
+                  "common_edge(F1, F2) tests every side (f[i], f[i+1]) of F1 for `the face across it is F2`", note="common_edge over all sides")
+
+
+# ----------------------------------------------------------------------- C01-G1
+MDATA = "mesh.mesh_data"
+
+
+def g1_corner_generation(ctx):
+    fn = _priv(ctx, "C01-G1", MDATA, "RawMeshData", "_generate_face_corners",
+               pred=lambda f: f.name != "clear" and any(au.call_tail(c) == "append" and isinstance(c.func, ast.Attribute) and au.is_self_attr(c.func.value, "face_corners")
+                                                        for c in au.calls(f)))
+    site = ctx.site(MDATA, fn)
+    x = q.summarise(ctx.repo, MDATA, "RawMeshData", fn)
+    apps = [(e, b) for e, b in q.method_calls(x, ("append",)) if q.field(b) == "face_corners"]
+    if not apps:
+        # the two parallel arrays assigned as a whole: [v for F in faces for v in F] and [iF for iF, F in enumerate(faces) for _ in F]
+        arrays = {}
+        for s_ in x.effects:
+            if s_.kind == "setattr" and q.field(s_.base) == "face_corners" and s_.key in ("_elem", "_adj"):
+                v = x.expand(s_.value)
+                if isinstance(v, (ast.ListComp, ast.GeneratorExp)) and hasattr(v, "_frames"):
+                    arrays[s_.key] = v
+        good = set()
+        for k, v in arrays.items():
+            fr = v._frames
+            if len(fr) == 2 and not v._conds and hr.seq_over(fr[0], "faces") and fr[1].kind == "seq" \
+                    and q.same(fr[1].dom, ast.Subscript(value=fr[0].dom, slice=sx.N(fr[0].var), ctx=ast.Load())):
+                want = ast.Subscript(value=fr[1].dom, slice=sx.N(fr[1].var), ctx=ast.Load()) if k == "_elem" else sx.N(fr[0].var)
+                if q.same(v.elt, want):
+                    good.add(k)
+        if good == {"_elem", "_adj"}:
+            ctx.ok("C01-G1", site, "corner arrays rebuilt as a whole from every vertex of every face")
+        else:
+            ctx.undecided("C01-G1", site, "generation of the face corners not recognised (no append to self.face_corners, no whole-array rebuild)", "")
+        return
+    for e, b in apps:
+        esite = ctx.site(MDATA, e.fn, e.node)
+        fr = e.frames
+        partial = [g for g in fr if g.kind == "range" and isinstance(g.dom, ast.Tuple) and any(
+            isinstance(n, ast.Call) and isinstance(n.func, ast.Name) and n.func.id == "len" and n.args and q.field(n.args[0]) == "faces" for n in ast.walk(g.dom))]
+        if partial:
+            ctx.fail("C01-G1", esite, "face corners are appended for a sub-range of the faces only, on top of the corners that already exist",
+                     "the existing corners are trusted without being compared with the faces they belong to: after a face was rewritten with another "
+                     "number of vertices the corner container no longer matches the face list")
+            continue
+        ok = len(fr) == 2 and hr.seq_over(fr[0], "faces") and fr[1].kind == "seq" and \
+            q.same(fr[1].dom, ast.Subscript(value=fr[0].dom, slice=sx.N(fr[0].var), ctx=ast.Load())) and len(e.args) == 2 \
+            and q.same(e.args[0], ast.Subscript(value=fr[1].dom, slice=sx.N(fr[1].var), ctx=ast.Load())) and q.same(e.args[1], sx.N(fr[0].var))
+        resets = {s_.key for s_ in x.effects if s_.kind == "setattr" and q.field(s_.base) == "face_corners" and s_.seq < e.seq
+                  and q._empty_container(s_.value) and set(q.cond_srcs(s_.conds)) <= set(q.cond_srcs(e.conds))}
+        if not ok or not {"_elem", "_adj"} <= resets:
+            ctx.undecided("C01-G1", esite, "generation of the face corners not recognised as `empty the container, then one corner per vertex of every face`", "")
+        else:
+            ctx.ok("C01-G1", esite, "corners regenerated from scratch for every vertex of every face")
